@@ -284,3 +284,1072 @@ Theorem model_is_source_C18_NewtonC : forall S : SArith, @SrcEqNewtonC.model_is_
 Proof. intros S. exact SrcEqNewtonC.model_is_source_NewtonC_lemma. Qed.
 Check model_is_source_C18_NewtonC : forall S : SArith, @SrcEqNewtonC.model_is_source_NewtonC S.
 Print Assumptions model_is_source_C18_NewtonC.
+
+(* ======================================================================================
+   C18, round four (package jacexact) -- to be appended at the END of Props/C18.v.
+   (1) what the finite-difference Jacobian computes over ANY arithmetic (no ring law);  (2) "exact on dyadic data" at IEEE binary64:
+   for an affine map on dyadic data the returned matrix IS M, bit for bit, and every coordinate is restored exactly (real and complex
+   variant), with Examples outside the bounds where neither holds;  (3) in the standard model of floating-point arithmetic: the drift
+   of the restored coordinates (all columns), the rounding floor of the difference quotient for any function, the total error
+   (truncation + floor + drift) and the optimal-step trade-off.
+   (4) drift and rounding floor AT BINARY64 ITSELF (primitive floats through Flocq's specification), any closure, "whenever finite".
+   Still not proved: a complex total-error statement (truncation is jacobian_truncation_C, the floor jacobian_rounding_floor_C / jacobian_entry_floor_C_float); that the closure's own
+   evaluation error eps is small is the user's obligation (it is a hypothesis everywhere). *)
+From Coq Require Import Reals Lra Lia ZArith.
+From Coq Require Floats.
+From Flocq Require Core.Core.
+From OV Require Base.RoundModel Inst.FloatInst Model.Complex Proofs.ComplexRound Proofs.RoundFlx
+  Proofs.JacExactGen Proofs.JacExactFloat Proofs.JacExactFloatGen Proofs.JacExactFloatC Proofs.JacExactRound Proofs.JacExactRoundEx Proofs.JacExactRoundC
+  Proofs.JacExactFloatRound Proofs.JacExactFloatRoundC.
+Local Close Scope R_scope.
+Local Open Scope nat_scope.
+
+(* ANY arithmetic, ANY function (no ring law: binary64 included): the calls are made at x and at the points call_pt 0 .. call_pt (n-1)
+   (coordinates: jacobian_call_point_coordinates below), and entry (i, j) is ( f_i(call_pt j) - f_i(x) ) / d with the arithmetic's own - and / *)
+Theorem jacobian_entries_any : forall (O : NOps) (f : list (NA O) -> res (list (NA O))) (x : list (NA O)) (d : NA O) (J : matrix (NA O)) (evs : list (list (NA O))),
+  jacobian O f x d = Ok (J, evs) ->
+  evs = x :: map (JacExactGen.call_pt O x d) (seq 0 (length x)) /\
+  exists f0, f x = Ok f0 /\ wf J /\ rows J = length f0 /\ cols J = length x /\
+    forall i j, (i < length f0)%nat -> (j < length x)%nat ->
+      exists fj q, f (JacExactGen.call_pt O x d j) = Ok fj /\ length fj = length f0 /\
+                   div (sub (nth i fj zero) (nth i f0 zero)) d = Ok q /\ mget J i j = Ok q.
+Proof. exact JacExactGen.jacobian_gen_lemma. Qed.
+Check jacobian_entries_any : forall (O : NOps) (f : list (NA O) -> res (list (NA O))) (x : list (NA O)) (d : NA O) (J : matrix (NA O)) (evs : list (list (NA O))),
+  jacobian O f x d = Ok (J, evs) ->
+  evs = x :: map (JacExactGen.call_pt O x d) (seq 0 (length x)) /\
+  exists f0, f x = Ok f0 /\ wf J /\ rows J = length f0 /\ cols J = length x /\
+    forall i j, (i < length f0)%nat -> (j < length x)%nat ->
+      exists fj q, f (JacExactGen.call_pt O x d j) = Ok fj /\ length fj = length f0 /\
+                   div (sub (nth i fj zero) (nth i f0 zero)) d = Ok q /\ mget J i j = Ok q.
+Print Assumptions jacobian_entries_any.
+(* non-vacuity at binary64 with a non-dyadic step, where (a + d) - d = a fails (JacExactFloat.exj_inexact): the run returns *)
+Example jacobian_entries_any_nonvacuous :
+  exists J evs, jacobian (NReal FloatInst.AF) (fun p => Ok (aff (NReal FloatInst.AF) JacExactFloat.exj_M JacExactFloat.exj_c p))
+                  JacExactFloat.exj_x2 JacExactFloat.exj_d2 = Ok (J, evs).
+Proof. do 2 eexists. vm_compute. reflexivity. Qed.
+
+(* the point of the j-th call: coordinate j is x_j + d, the coordinates before j have been through  += d; -= d,  the others are x_k *)
+Theorem jacobian_call_point_coordinates : forall (O : NOps) (x : list (NA O)) (d : NA O) (j k : nat), (j < length x)%nat ->
+  nth k (JacExactGen.call_pt O x d j) zero =
+    if (k =? j)%nat then add (nth j x zero) d else if (k <? j)%nat then sub (add (nth k x zero) d) d else nth k x zero.
+Proof. exact JacExactGen.call_pt_coords. Qed.
+Check jacobian_call_point_coordinates : forall (O : NOps) (x : list (NA O)) (d : NA O) (j k : nat), (j < length x)%nat ->
+  nth k (JacExactGen.call_pt O x d j) zero =
+    if (k =? j)%nat then add (nth j x zero) d else if (k <? j)%nat then sub (add (nth k x zero) d) d else nth k x zero.
+Print Assumptions jacobian_call_point_coordinates.
+
+(* the state vector the Rust loop ends with (jacobian_tr = jacobian + the final `state`): every coordinate is (x_k + d) - d *)
+Theorem jacobian_final_state_any : forall (O : NOps) (f : list (NA O) -> res (list (NA O))) (x : list (NA O)) (d : NA O) (st : list (NA O)) (J : matrix (NA O))
+    (evs : list (list (NA O))),
+  jacobian_tr O f x d = Ok (st, J, evs) ->
+  length st = length x /\
+  forall k, nth k st zero = if (k <? length x)%nat then sub (add (nth k x zero) d) d else nth k x zero.
+Proof. exact JacExactGen.jacobian_final_state_lemma. Qed.
+Check jacobian_final_state_any : forall (O : NOps) (f : list (NA O) -> res (list (NA O))) (x : list (NA O)) (d : NA O) (st : list (NA O)) (J : matrix (NA O))
+    (evs : list (list (NA O))),
+  jacobian_tr O f x d = Ok (st, J, evs) ->
+  length st = length x /\
+  forall k, nth k st zero = if (k <? length x)%nat then sub (add (nth k x zero) d) d else nth k x zero.
+Print Assumptions jacobian_final_state_any.
+
+(* jacobian_calls / jacobian_entry without ring laws: it is enough that the restoration is exact ON THE COORDINATES OF x *)
+Theorem jacobian_exact_restore : forall (O : NOps) (f : list (NA O) -> res (list (NA O))) (x : list (NA O)) (d : NA O) (J : matrix (NA O)) (evs : list (list (NA O))),
+  (forall k, (k < length x)%nat -> sub (add (nth k x zero) d) d = nth k x zero) ->
+  jacobian O f x d = Ok (J, evs) ->
+  evs = x :: map (perturbed O x d) (seq 0 (length x)) /\
+  exists f0, f x = Ok f0 /\ wf J /\ rows J = length f0 /\ cols J = length x /\
+    forall i j, (i < length f0)%nat -> (j < length x)%nat ->
+      exists fj q, f (perturbed O x d j) = Ok fj /\ length fj = length f0 /\
+                   div (sub (nth i fj zero) (nth i f0 zero)) d = Ok q /\ mget J i j = Ok q.
+Proof. exact JacExactGen.jacobian_gen_exact_restore. Qed.
+Check jacobian_exact_restore : forall (O : NOps) (f : list (NA O) -> res (list (NA O))) (x : list (NA O)) (d : NA O) (J : matrix (NA O)) (evs : list (list (NA O))),
+  (forall k, (k < length x)%nat -> sub (add (nth k x zero) d) d = nth k x zero) ->
+  jacobian O f x d = Ok (J, evs) ->
+  evs = x :: map (perturbed O x d) (seq 0 (length x)) /\
+  exists f0, f x = Ok f0 /\ wf J /\ rows J = length f0 /\ cols J = length x /\
+    forall i j, (i < length f0)%nat -> (j < length x)%nat ->
+      exists fj q, f (perturbed O x d j) = Ok fj /\ length fj = length f0 /\
+                   div (sub (nth i fj zero) (nth i f0 zero)) d = Ok q /\ mget J i j = Ok q.
+Print Assumptions jacobian_exact_restore.
+(* non-vacuity at binary64: dyadic point, delta = 2^-20 *)
+Example jacobian_exact_restore_nonvacuous :
+  (forall k, (k < length JacExactFloat.exj_x)%nat ->
+     @sub FloatInst.AF (@add FloatInst.AF (nth k JacExactFloat.exj_x (@zero FloatInst.AF)) JacExactFloat.exj_d) JacExactFloat.exj_d =
+     nth k JacExactFloat.exj_x (@zero FloatInst.AF)) /\
+  exists J evs, jacobian (NReal FloatInst.AF) (fun p => Ok (aff (NReal FloatInst.AF) JacExactFloat.exj_M JacExactFloat.exj_c p))
+                  JacExactFloat.exj_x JacExactFloat.exj_d = Ok (J, evs).
+Proof.
+  split; [|do 2 eexists; exact JacExactFloat.exj_value].
+  intros k Hk. do 3 (destruct k as [|k]; [vm_compute; reflexivity|]). cbn in Hk. lia.
+Qed.
+
+(* C18 "exact on dyadic data", Mat64::jacobian at IEEE binary64 (NReal AF; the affine map is the Gallina function [aff] of
+   jacobian_affine run with the binary64 operations: row i = ((0 + M_i0 p_0) + M_i1 p_1 + ...) + c_i).
+   Data: M_ik = Mz i k 2^eM, x_k = Xz k 2^eX, c_i = Cz i 2^(eM+eX), delta = Dd 2^eX with Dd > 0 (delta = 2^-k: eX <= -k, Dd = 2^(-k-eX));
+   zsumn n f = Sum_(k<n) f k.  Conclusion: no operation rounds; the matrix returned IS M (bit for bit), the state is x again after
+   every column (calls at x + delta e_j, final state x).  FR = real value, ffinite = finite, bpow radix2 e = 2^e.
+   No M_ik and no x_k may be the negative zero: the code returns +0 for an entry -0 and restores x_k = -0 as +0 (third Example). *)
+Theorem jacobian_affine_exact_float : forall (M : matrix FloatInst.AF) (c x : list PrimFloat.float) (d : PrimFloat.float)
+    (Mz : nat -> nat -> Z) (Cz Xz : nat -> Z) (Dd eM eX : Z),
+  wf M -> length x = cols M ->
+  (forall i j, (i < rows M)%nat -> (j < cols M)%nat ->
+     ComplexRound.ffinite (ment (NReal FloatInst.AF) M i j) /\
+     ComplexRound.FR (ment (NReal FloatInst.AF) M i j) = (IZR (Mz i j) * Flocq.Core.Raux.bpow Flocq.Core.Zaux.radix2 eM)%R /\
+     ment (NReal FloatInst.AF) M i j <> PrimFloat.neg_zero) ->
+  (forall j, (j < cols M)%nat ->
+     ComplexRound.ffinite (nth j x (@zero FloatInst.AF)) /\
+     ComplexRound.FR (nth j x (@zero FloatInst.AF)) = (IZR (Xz j) * Flocq.Core.Raux.bpow Flocq.Core.Zaux.radix2 eX)%R /\
+     nth j x (@zero FloatInst.AF) <> PrimFloat.neg_zero) ->
+  (forall i, (i < rows M)%nat ->
+     ComplexRound.ffinite (nth i c (@zero FloatInst.AF)) /\
+     ComplexRound.FR (nth i c (@zero FloatInst.AF)) = (IZR (Cz i) * Flocq.Core.Raux.bpow Flocq.Core.Zaux.radix2 (eM + eX))%R) ->
+  ComplexRound.ffinite d -> ComplexRound.FR d = (IZR Dd * Flocq.Core.Raux.bpow Flocq.Core.Zaux.radix2 eX)%R -> (0 < Dd)%Z ->
+  (-1074 <= eX <= 971)%Z -> (-1074 <= eM <= 971)%Z -> (-1074 <= eM + eX <= 971)%Z ->
+  (forall j, (j < cols M)%nat -> (Z.abs (Xz j) + Dd < 2 ^ 53)%Z) ->
+  (forall i, (i < rows M)%nat ->
+     (JacExactFloat.zsumn (cols M) (fun k => Z.abs (Mz i k) * (Z.abs (Xz k) + Dd)) + Z.abs (Cz i) < 2 ^ 53)%Z) ->
+  jacobian_tr (NReal FloatInst.AF) (fun p => Ok (aff (NReal FloatInst.AF) M c p)) x d =
+    Ok (x, M, x :: map (perturbed (NReal FloatInst.AF) x d) (seq 0 (length x))) /\
+  jacobian (NReal FloatInst.AF) (fun p => Ok (aff (NReal FloatInst.AF) M c p)) x d =
+    Ok (M, x :: map (perturbed (NReal FloatInst.AF) x d) (seq 0 (length x))).
+Proof. exact JacExactFloat.jacobian_affine_exact_float_thm. Qed.
+Check jacobian_affine_exact_float : forall (M : matrix FloatInst.AF) (c x : list PrimFloat.float) (d : PrimFloat.float)
+    (Mz : nat -> nat -> Z) (Cz Xz : nat -> Z) (Dd eM eX : Z),
+  wf M -> length x = cols M ->
+  (forall i j, (i < rows M)%nat -> (j < cols M)%nat ->
+     ComplexRound.ffinite (ment (NReal FloatInst.AF) M i j) /\
+     ComplexRound.FR (ment (NReal FloatInst.AF) M i j) = (IZR (Mz i j) * Flocq.Core.Raux.bpow Flocq.Core.Zaux.radix2 eM)%R /\
+     ment (NReal FloatInst.AF) M i j <> PrimFloat.neg_zero) ->
+  (forall j, (j < cols M)%nat ->
+     ComplexRound.ffinite (nth j x (@zero FloatInst.AF)) /\
+     ComplexRound.FR (nth j x (@zero FloatInst.AF)) = (IZR (Xz j) * Flocq.Core.Raux.bpow Flocq.Core.Zaux.radix2 eX)%R /\
+     nth j x (@zero FloatInst.AF) <> PrimFloat.neg_zero) ->
+  (forall i, (i < rows M)%nat ->
+     ComplexRound.ffinite (nth i c (@zero FloatInst.AF)) /\
+     ComplexRound.FR (nth i c (@zero FloatInst.AF)) = (IZR (Cz i) * Flocq.Core.Raux.bpow Flocq.Core.Zaux.radix2 (eM + eX))%R) ->
+  ComplexRound.ffinite d -> ComplexRound.FR d = (IZR Dd * Flocq.Core.Raux.bpow Flocq.Core.Zaux.radix2 eX)%R -> (0 < Dd)%Z ->
+  (-1074 <= eX <= 971)%Z -> (-1074 <= eM <= 971)%Z -> (-1074 <= eM + eX <= 971)%Z ->
+  (forall j, (j < cols M)%nat -> (Z.abs (Xz j) + Dd < 2 ^ 53)%Z) ->
+  (forall i, (i < rows M)%nat ->
+     (JacExactFloat.zsumn (cols M) (fun k => Z.abs (Mz i k) * (Z.abs (Xz k) + Dd)) + Z.abs (Cz i) < 2 ^ 53)%Z) ->
+  jacobian_tr (NReal FloatInst.AF) (fun p => Ok (aff (NReal FloatInst.AF) M c p)) x d =
+    Ok (x, M, x :: map (perturbed (NReal FloatInst.AF) x d) (seq 0 (length x))) /\
+  jacobian (NReal FloatInst.AF) (fun p => Ok (aff (NReal FloatInst.AF) M c p)) x d =
+    Ok (M, x :: map (perturbed (NReal FloatInst.AF) x d) (seq 0 (length x))).
+Print Assumptions jacobian_affine_exact_float.
+Example jacobian_affine_exact_float_nonvacuous :
+  wf JacExactFloat.exj_M /\ length JacExactFloat.exj_x = cols JacExactFloat.exj_M /\
+  (forall i j, (i < rows JacExactFloat.exj_M)%nat -> (j < cols JacExactFloat.exj_M)%nat ->
+     ComplexRound.ffinite (ment (NReal FloatInst.AF) JacExactFloat.exj_M i j) /\
+     ComplexRound.FR (ment (NReal FloatInst.AF) JacExactFloat.exj_M i j) =
+       (IZR (JacExactFloat.exj_Mz i j) * Flocq.Core.Raux.bpow Flocq.Core.Zaux.radix2 0)%R /\
+     ment (NReal FloatInst.AF) JacExactFloat.exj_M i j <> PrimFloat.neg_zero) /\
+  (forall j, (j < cols JacExactFloat.exj_M)%nat ->
+     ComplexRound.ffinite (nth j JacExactFloat.exj_x (@zero FloatInst.AF)) /\
+     ComplexRound.FR (nth j JacExactFloat.exj_x (@zero FloatInst.AF)) = (IZR (JacExactFloat.exj_Xz j) * Flocq.Core.Raux.bpow Flocq.Core.Zaux.radix2 (-20))%R /\
+     nth j JacExactFloat.exj_x (@zero FloatInst.AF) <> PrimFloat.neg_zero) /\
+  (forall i, (i < rows JacExactFloat.exj_M)%nat ->
+     ComplexRound.ffinite (nth i JacExactFloat.exj_c (@zero FloatInst.AF)) /\
+     ComplexRound.FR (nth i JacExactFloat.exj_c (@zero FloatInst.AF)) = (IZR (JacExactFloat.exj_Cz i) * Flocq.Core.Raux.bpow Flocq.Core.Zaux.radix2 (0 + -20))%R) /\
+  ComplexRound.ffinite JacExactFloat.exj_d /\
+  ComplexRound.FR JacExactFloat.exj_d = (IZR 1 * Flocq.Core.Raux.bpow Flocq.Core.Zaux.radix2 (-20))%R /\ (0 < 1)%Z /\
+  (forall j, (j < cols JacExactFloat.exj_M)%nat -> (Z.abs (JacExactFloat.exj_Xz j) + 1 < 2 ^ 53)%Z) /\
+  (forall i, (i < rows JacExactFloat.exj_M)%nat ->
+     (JacExactFloat.zsumn (cols JacExactFloat.exj_M) (fun k => Z.abs (JacExactFloat.exj_Mz i k) * (Z.abs (JacExactFloat.exj_Xz k) + 1))
+      + Z.abs (JacExactFloat.exj_Cz i) < 2 ^ 53)%Z) /\
+  (* delta = 2^-20, M = [1 2 3; -1 0 5], x = (0.5, -1.25, 3), c = (0.5, 7): the run, by evaluation *)
+  jacobian (NReal FloatInst.AF) (fun p => Ok (aff (NReal FloatInst.AF) JacExactFloat.exj_M JacExactFloat.exj_c p))
+           JacExactFloat.exj_x JacExactFloat.exj_d =
+    Ok (JacExactFloat.exj_M, JacExactFloat.exj_evs).
+Proof.
+  split; [reflexivity|]. split; [reflexivity|]. split; [exact JacExactFloat.exj_M_dy|]. split; [exact JacExactFloat.exj_x_dy|].
+  split; [exact JacExactFloat.exj_c_dy|]. split; [exact (proj1 JacExactFloat.exj_d_dy)|]. split; [exact (proj2 JacExactFloat.exj_d_dy)|].
+  split; [lia|]. split; [exact JacExactFloat.exj_bx|]. split; [exact JacExactFloat.exj_brow|]. exact JacExactFloat.exj_value.
+Qed.
+(* OUTSIDE the hypotheses, delta = 1e-8 (the binary64 number 0x1.5798ee2308c3ap-27, not dyadic on the grid of x): every non-zero entry is
+   wrong (0.99999999392... for 1: error ~ u/delta), and x_0 = 0.9999999999 is restored ONE ULP SMALLER, so that columns 1, 2 are
+   evaluated at a point that is not x + delta e_j *)
+Example jacobian_affine_float_inexact_nondyadic :
+  exists st J evs, jacobian_tr (NReal FloatInst.AF) (fun p => Ok (aff (NReal FloatInst.AF) JacExactFloat.exj_M JacExactFloat.exj_c p))
+                     JacExactFloat.exj_x2 JacExactFloat.exj_d2 = Ok (st, J, evs) /\
+    map (fun k => PrimFloat.eqb (nth k (buf J) (@zero FloatInst.AF)) (nth k (buf JacExactFloat.exj_M) (@zero FloatInst.AF))) (seq 0 6) =
+      [false; false; false; false; true; false] /\
+    PrimFloat.eqb (nth 0 st (@zero FloatInst.AF)) (nth 0 JacExactFloat.exj_x2 (@zero FloatInst.AF)) = false /\
+    PrimFloat.ltb (nth 0 st (@zero FloatInst.AF)) (nth 0 JacExactFloat.exj_x2 (@zero FloatInst.AF)) = true /\
+    nth 0 (nth 2 evs []) (@zero FloatInst.AF) = nth 0 st (@zero FloatInst.AF).
+Proof. exact JacExactFloat.exj_inexact. Qed.
+(* the sign hypotheses are needed: x_0 = -0 is restored as +0, the entry M_01 = -0 is returned as +0 *)
+Example jacobian_affine_float_negzero :
+  exists st J evs,
+    jacobian_tr (NReal FloatInst.AF)
+      (fun p => Ok (aff (NReal FloatInst.AF) JacExactFloat.exj_Mneg JacExactFloat.exj_c p))
+      JacExactFloat.exj_xneg JacExactFloat.exj_d = Ok (st, J, evs) /\
+    PrimFloat.get_sign (nth 0 st (@zero FloatInst.AF)) = false /\ PrimFloat.get_sign (nth 1 (buf J) (@one FloatInst.AF)) = false /\
+    PrimFloat.get_sign PrimFloat.neg_zero = true.
+Proof. exact JacExactFloat.exj_negzero. Qed.
+
+(* the exactness at binary64 does not depend on HOW the closure evaluates the map, only on its n + 1 values being held exactly:
+   ANY total closure F with  F(x)_i = N0 i 2^E  and  F(x + delta e_j)_i = (N0 i + Mz i j Dd) 2^E  (exactly; the latter not -0),
+   x_k = Xz k 2^eX, delta = Dd 2^eX:  the matrix returned is the float matrix M with M_ij = Mz i j 2^(E - eX), bit for bit *)
+Theorem jacobian_exact_float_any_closure : forall (F : list PrimFloat.float -> res (list PrimFloat.float)) (M : matrix FloatInst.AF)
+    (x : list PrimFloat.float) (d : PrimFloat.float) (Mz : nat -> nat -> Z) (N0 Xz : nat -> Z) (Dd E eX : Z),
+  wf M -> length x = cols M ->
+  (forall y, length y = length x -> exists v, F y = Ok v /\ length v = rows M) ->
+  (forall i j, (i < rows M)%nat -> (j < cols M)%nat ->
+     ComplexRound.ffinite (ment (NReal FloatInst.AF) M i j) /\ ComplexRound.FR (ment (NReal FloatInst.AF) M i j) = (IZR (Mz i j) * Flocq.Core.Raux.bpow Flocq.Core.Zaux.radix2 (E - eX))%R /\
+     ment (NReal FloatInst.AF) M i j <> PrimFloat.neg_zero) ->
+  (forall j, (j < cols M)%nat ->
+     ComplexRound.ffinite (nth j x (@zero FloatInst.AF)) /\ ComplexRound.FR (nth j x (@zero FloatInst.AF)) = (IZR (Xz j) * Flocq.Core.Raux.bpow Flocq.Core.Zaux.radix2 eX)%R /\ nth j x (@zero FloatInst.AF) <> PrimFloat.neg_zero) ->
+  ComplexRound.ffinite d -> ComplexRound.FR d = (IZR Dd * Flocq.Core.Raux.bpow Flocq.Core.Zaux.radix2 eX)%R -> (0 < Dd)%Z ->
+  (-1074 <= eX <= 971)%Z -> (-1074 <= E <= 971)%Z -> (-1074 <= E - eX <= 971)%Z ->
+  (forall j, (j < cols M)%nat -> (Z.abs (Xz j) + Dd < 2 ^ 53)%Z) ->
+  (forall i j, (i < rows M)%nat -> (j < cols M)%nat -> (Z.abs (Mz i j * Dd) < 2 ^ 53)%Z) ->
+  (forall v i, F x = Ok v -> (i < rows M)%nat ->
+     ComplexRound.ffinite (nth i v (@zero FloatInst.AF)) /\ ComplexRound.FR (nth i v (@zero FloatInst.AF)) = (IZR (N0 i) * Flocq.Core.Raux.bpow Flocq.Core.Zaux.radix2 E)%R) ->
+  (forall v i j, (j < cols M)%nat -> F (perturbed (NReal FloatInst.AF) x d j) = Ok v -> (i < rows M)%nat ->
+     ComplexRound.ffinite (nth i v (@zero FloatInst.AF)) /\ ComplexRound.FR (nth i v (@zero FloatInst.AF)) = (IZR (N0 i + Mz i j * Dd) * Flocq.Core.Raux.bpow Flocq.Core.Zaux.radix2 E)%R /\
+     nth i v (@zero FloatInst.AF) <> PrimFloat.neg_zero) ->
+  jacobian_tr (NReal FloatInst.AF) F x d = Ok (x, M, x :: map (perturbed (NReal FloatInst.AF) x d) (seq 0 (length x))) /\
+  jacobian (NReal FloatInst.AF) F x d = Ok (M, x :: map (perturbed (NReal FloatInst.AF) x d) (seq 0 (length x))).
+Proof. exact JacExactFloatGen.jacobian_exact_float_gen_thm. Qed.
+Check jacobian_exact_float_any_closure : forall (F : list PrimFloat.float -> res (list PrimFloat.float)) (M : matrix FloatInst.AF)
+    (x : list PrimFloat.float) (d : PrimFloat.float) (Mz : nat -> nat -> Z) (N0 Xz : nat -> Z) (Dd E eX : Z),
+  wf M -> length x = cols M ->
+  (forall y, length y = length x -> exists v, F y = Ok v /\ length v = rows M) ->
+  (forall i j, (i < rows M)%nat -> (j < cols M)%nat ->
+     ComplexRound.ffinite (ment (NReal FloatInst.AF) M i j) /\ ComplexRound.FR (ment (NReal FloatInst.AF) M i j) = (IZR (Mz i j) * Flocq.Core.Raux.bpow Flocq.Core.Zaux.radix2 (E - eX))%R /\
+     ment (NReal FloatInst.AF) M i j <> PrimFloat.neg_zero) ->
+  (forall j, (j < cols M)%nat ->
+     ComplexRound.ffinite (nth j x (@zero FloatInst.AF)) /\ ComplexRound.FR (nth j x (@zero FloatInst.AF)) = (IZR (Xz j) * Flocq.Core.Raux.bpow Flocq.Core.Zaux.radix2 eX)%R /\ nth j x (@zero FloatInst.AF) <> PrimFloat.neg_zero) ->
+  ComplexRound.ffinite d -> ComplexRound.FR d = (IZR Dd * Flocq.Core.Raux.bpow Flocq.Core.Zaux.radix2 eX)%R -> (0 < Dd)%Z ->
+  (-1074 <= eX <= 971)%Z -> (-1074 <= E <= 971)%Z -> (-1074 <= E - eX <= 971)%Z ->
+  (forall j, (j < cols M)%nat -> (Z.abs (Xz j) + Dd < 2 ^ 53)%Z) ->
+  (forall i j, (i < rows M)%nat -> (j < cols M)%nat -> (Z.abs (Mz i j * Dd) < 2 ^ 53)%Z) ->
+  (forall v i, F x = Ok v -> (i < rows M)%nat ->
+     ComplexRound.ffinite (nth i v (@zero FloatInst.AF)) /\ ComplexRound.FR (nth i v (@zero FloatInst.AF)) = (IZR (N0 i) * Flocq.Core.Raux.bpow Flocq.Core.Zaux.radix2 E)%R) ->
+  (forall v i j, (j < cols M)%nat -> F (perturbed (NReal FloatInst.AF) x d j) = Ok v -> (i < rows M)%nat ->
+     ComplexRound.ffinite (nth i v (@zero FloatInst.AF)) /\ ComplexRound.FR (nth i v (@zero FloatInst.AF)) = (IZR (N0 i + Mz i j * Dd) * Flocq.Core.Raux.bpow Flocq.Core.Zaux.radix2 E)%R /\
+     nth i v (@zero FloatInst.AF) <> PrimFloat.neg_zero) ->
+  jacobian_tr (NReal FloatInst.AF) F x d = Ok (x, M, x :: map (perturbed (NReal FloatInst.AF) x d) (seq 0 (length x))) /\
+  jacobian (NReal FloatInst.AF) F x d = Ok (M, x :: map (perturbed (NReal FloatInst.AF) x d) (seq 0 (length x))).
+Print Assumptions jacobian_exact_float_any_closure.
+(* non-vacuity: jacobian_affine_cfirst_exact_float below is an instance (its proof discharges every hypothesis above for the closure affc) *)
+
+(* the evaluation order of the check's own affine test closures (driver/newtonlib.py affine_exprs):
+     affc M c p, row i = ((c_i + M_i0 p_0) + M_i1 p_1) + ...      (sum_from acc n f = acc + f 0 + ... + f (n-1), left to right)
+   same data, same bounds as jacobian_affine_exact_float, c_i not -0: the RULE of driver/c18.py ("delta = 2^-k where every operation is
+   exact") is this theorem -- M on the grid 1/8 in [-4,4], x on the grid 1/16 in [-4,4], delta = 2^-k, k = 4..26, n <= 6 satisfy it *)
+Theorem jacobian_affine_cfirst_exact_float : forall (M : matrix FloatInst.AF) (c x : list PrimFloat.float) (d : PrimFloat.float)
+    (Mz : nat -> nat -> Z) (Cz Xz : nat -> Z) (Dd eM eX : Z),
+  wf M -> length x = cols M ->
+  (forall i j, (i < rows M)%nat -> (j < cols M)%nat ->
+     ComplexRound.ffinite (ment (NReal FloatInst.AF) M i j) /\
+     ComplexRound.FR (ment (NReal FloatInst.AF) M i j) = (IZR (Mz i j) * Flocq.Core.Raux.bpow Flocq.Core.Zaux.radix2 eM)%R /\
+     ment (NReal FloatInst.AF) M i j <> PrimFloat.neg_zero) ->
+  (forall j, (j < cols M)%nat ->
+     ComplexRound.ffinite (nth j x (@zero FloatInst.AF)) /\
+     ComplexRound.FR (nth j x (@zero FloatInst.AF)) = (IZR (Xz j) * Flocq.Core.Raux.bpow Flocq.Core.Zaux.radix2 eX)%R /\
+     nth j x (@zero FloatInst.AF) <> PrimFloat.neg_zero) ->
+  (forall i, (i < rows M)%nat ->
+     ComplexRound.ffinite (nth i c (@zero FloatInst.AF)) /\
+     ComplexRound.FR (nth i c (@zero FloatInst.AF)) = (IZR (Cz i) * Flocq.Core.Raux.bpow Flocq.Core.Zaux.radix2 (eM + eX))%R /\
+     nth i c (@zero FloatInst.AF) <> PrimFloat.neg_zero) ->
+  ComplexRound.ffinite d -> ComplexRound.FR d = (IZR Dd * Flocq.Core.Raux.bpow Flocq.Core.Zaux.radix2 eX)%R -> (0 < Dd)%Z ->
+  (-1074 <= eX <= 971)%Z -> (-1074 <= eM <= 971)%Z -> (-1074 <= eM + eX <= 971)%Z ->
+  (forall j, (j < cols M)%nat -> (Z.abs (Xz j) + Dd < 2 ^ 53)%Z) ->
+  (forall i, (i < rows M)%nat ->
+     (JacExactFloat.zsumn (cols M) (fun k => Z.abs (Mz i k) * (Z.abs (Xz k) + Dd)) + Z.abs (Cz i) < 2 ^ 53)%Z) ->
+  jacobian_tr (NReal FloatInst.AF) (fun p => Ok (JacExactFloatGen.affc (NReal FloatInst.AF) M c p)) x d =
+    Ok (x, M, x :: map (perturbed (NReal FloatInst.AF) x d) (seq 0 (length x))) /\
+  jacobian (NReal FloatInst.AF) (fun p => Ok (JacExactFloatGen.affc (NReal FloatInst.AF) M c p)) x d =
+    Ok (M, x :: map (perturbed (NReal FloatInst.AF) x d) (seq 0 (length x))).
+Proof. exact JacExactFloatGen.jacobian_affine_cfirst_exact_float_thm. Qed.
+Check jacobian_affine_cfirst_exact_float : forall (M : matrix FloatInst.AF) (c x : list PrimFloat.float) (d : PrimFloat.float)
+    (Mz : nat -> nat -> Z) (Cz Xz : nat -> Z) (Dd eM eX : Z),
+  wf M -> length x = cols M ->
+  (forall i j, (i < rows M)%nat -> (j < cols M)%nat ->
+     ComplexRound.ffinite (ment (NReal FloatInst.AF) M i j) /\
+     ComplexRound.FR (ment (NReal FloatInst.AF) M i j) = (IZR (Mz i j) * Flocq.Core.Raux.bpow Flocq.Core.Zaux.radix2 eM)%R /\
+     ment (NReal FloatInst.AF) M i j <> PrimFloat.neg_zero) ->
+  (forall j, (j < cols M)%nat ->
+     ComplexRound.ffinite (nth j x (@zero FloatInst.AF)) /\
+     ComplexRound.FR (nth j x (@zero FloatInst.AF)) = (IZR (Xz j) * Flocq.Core.Raux.bpow Flocq.Core.Zaux.radix2 eX)%R /\
+     nth j x (@zero FloatInst.AF) <> PrimFloat.neg_zero) ->
+  (forall i, (i < rows M)%nat ->
+     ComplexRound.ffinite (nth i c (@zero FloatInst.AF)) /\
+     ComplexRound.FR (nth i c (@zero FloatInst.AF)) = (IZR (Cz i) * Flocq.Core.Raux.bpow Flocq.Core.Zaux.radix2 (eM + eX))%R /\
+     nth i c (@zero FloatInst.AF) <> PrimFloat.neg_zero) ->
+  ComplexRound.ffinite d -> ComplexRound.FR d = (IZR Dd * Flocq.Core.Raux.bpow Flocq.Core.Zaux.radix2 eX)%R -> (0 < Dd)%Z ->
+  (-1074 <= eX <= 971)%Z -> (-1074 <= eM <= 971)%Z -> (-1074 <= eM + eX <= 971)%Z ->
+  (forall j, (j < cols M)%nat -> (Z.abs (Xz j) + Dd < 2 ^ 53)%Z) ->
+  (forall i, (i < rows M)%nat ->
+     (JacExactFloat.zsumn (cols M) (fun k => Z.abs (Mz i k) * (Z.abs (Xz k) + Dd)) + Z.abs (Cz i) < 2 ^ 53)%Z) ->
+  jacobian_tr (NReal FloatInst.AF) (fun p => Ok (JacExactFloatGen.affc (NReal FloatInst.AF) M c p)) x d =
+    Ok (x, M, x :: map (perturbed (NReal FloatInst.AF) x d) (seq 0 (length x))) /\
+  jacobian (NReal FloatInst.AF) (fun p => Ok (JacExactFloatGen.affc (NReal FloatInst.AF) M c p)) x d =
+    Ok (M, x :: map (perturbed (NReal FloatInst.AF) x d) (seq 0 (length x))).
+Print Assumptions jacobian_affine_cfirst_exact_float.
+Example jacobian_affine_cfirst_exact_float_nonvacuous :
+  (forall i, (i < rows JacExactFloat.exj_M)%nat -> nth i JacExactFloat.exj_c (@zero FloatInst.AF) <> PrimFloat.neg_zero) /\
+  (* the other hypotheses: jacobian_affine_exact_float_nonvacuous (same data); the run, by evaluation: *)
+  jacobian (NReal FloatInst.AF) (fun p => Ok (JacExactFloatGen.affc (NReal FloatInst.AF) JacExactFloat.exj_M JacExactFloat.exj_c p))
+           JacExactFloat.exj_x JacExactFloat.exj_d = Ok (JacExactFloat.exj_M, JacExactFloat.exj_evs).
+Proof. split; [exact JacExactFloatGen.exj_c_nz|exact JacExactFloatGen.exj_value_cfirst]. Qed.
+
+(* C18 "exact on dyadic data", Matrix::<Cmplx>::jacobian_cmplx at binary64 (NCplx SAF, step emb d = Cmplx::new(delta, 0.0): REAL, added to
+   the real part; the quotient is the complex division by (delta, 0)).  GAUSSIAN-DYADIC data:
+     gdy z a b e  :=  re z, im z finite with values a 2^e, b 2^e;     cnnz z  :=  neither part is the negative zero;
+   M_ik = (Mr + i Mi) 2^eM, x_k = (Xr + i Xi) 2^eX, c_i = (Cr + i Ci) 2^(eM+eX), delta = Dd 2^eX, Dd > 0.  The two extra bounds
+   (Dd^2, (|Mr|+|Mi|) Dd^2 < 2^53; exponents 2 eX and eM + 2 eX in range) come from the division, which multiplies by delta first.
+   Conclusion as in the real case: the returned matrix is M bit for bit, every coordinate is restored exactly. *)
+Theorem jacobian_affine_exact_float_C : forall (M : matrix (Complex.CArith FloatInst.SAF)) (c x : list (Complex.cplx FloatInst.AF)) (d : PrimFloat.float)
+    (Mr Mi : nat -> nat -> Z) (Cr Ci Xr Xi : nat -> Z) (Dd eM eX : Z),
+  wf M -> length x = cols M ->
+  (forall i j, (i < rows M)%nat -> (j < cols M)%nat ->
+     JacExactFloatC.gdy (ment (NCplx FloatInst.SAF) M i j) (Mr i j) (Mi i j) eM /\ JacExactFloatC.cnnz (ment (NCplx FloatInst.SAF) M i j)) ->
+  (forall j, (j < cols M)%nat -> JacExactFloatC.gdy (nth j x (@zero (Complex.CArith FloatInst.SAF))) (Xr j) (Xi j) eX /\ JacExactFloatC.cnnz (nth j x (@zero (Complex.CArith FloatInst.SAF)))) ->
+  (forall i, (i < rows M)%nat -> JacExactFloatC.gdy (nth i c (@zero (Complex.CArith FloatInst.SAF))) (Cr i) (Ci i) (eM + eX)) ->
+  ComplexRound.ffinite d -> ComplexRound.FR d = (IZR Dd * Flocq.Core.Raux.bpow Flocq.Core.Zaux.radix2 eX)%R -> (0 < Dd)%Z ->
+  (-1074 <= eX <= 971)%Z -> (-1074 <= eM <= 971)%Z -> (-1074 <= eM + eX <= 971)%Z ->
+  (-1074 <= eX + eX <= 971)%Z -> (-1074 <= eM + eX + eX <= 971)%Z ->
+  (forall j, (j < cols M)%nat -> (Z.abs (Xr j) + Dd < 2 ^ 53 /\ Z.abs (Xi j) < 2 ^ 53)%Z) ->
+  (forall i, (i < rows M)%nat ->
+     (JacExactFloat.zsumn (cols M) (fun k => (Z.abs (Mr i k) + Z.abs (Mi i k)) * (Z.abs (Xr k) + Z.abs (Xi k) + Dd))
+      + (Z.abs (Cr i) + Z.abs (Ci i)) < 2 ^ 53)%Z) ->
+  (Dd * Dd < 2 ^ 53)%Z ->
+  (forall i j, (i < rows M)%nat -> (j < cols M)%nat -> ((Z.abs (Mr i j) + Z.abs (Mi i j)) * (Dd * Dd) < 2 ^ 53)%Z) ->
+  jacobian_tr (NCplx FloatInst.SAF) (fun p => Ok (aff (NCplx FloatInst.SAF) M c p)) x (emb (NCplx FloatInst.SAF) d) =
+    Ok (x, M, x :: map (perturbed (NCplx FloatInst.SAF) x (emb (NCplx FloatInst.SAF) d)) (seq 0 (length x))) /\
+  jacobian (NCplx FloatInst.SAF) (fun p => Ok (aff (NCplx FloatInst.SAF) M c p)) x (emb (NCplx FloatInst.SAF) d) =
+    Ok (M, x :: map (perturbed (NCplx FloatInst.SAF) x (emb (NCplx FloatInst.SAF) d)) (seq 0 (length x))).
+Proof. exact JacExactFloatC.jacobian_affine_exact_float_C_thm. Qed.
+Check jacobian_affine_exact_float_C : forall (M : matrix (Complex.CArith FloatInst.SAF)) (c x : list (Complex.cplx FloatInst.AF)) (d : PrimFloat.float)
+    (Mr Mi : nat -> nat -> Z) (Cr Ci Xr Xi : nat -> Z) (Dd eM eX : Z),
+  wf M -> length x = cols M ->
+  (forall i j, (i < rows M)%nat -> (j < cols M)%nat ->
+     JacExactFloatC.gdy (ment (NCplx FloatInst.SAF) M i j) (Mr i j) (Mi i j) eM /\ JacExactFloatC.cnnz (ment (NCplx FloatInst.SAF) M i j)) ->
+  (forall j, (j < cols M)%nat -> JacExactFloatC.gdy (nth j x (@zero (Complex.CArith FloatInst.SAF))) (Xr j) (Xi j) eX /\ JacExactFloatC.cnnz (nth j x (@zero (Complex.CArith FloatInst.SAF)))) ->
+  (forall i, (i < rows M)%nat -> JacExactFloatC.gdy (nth i c (@zero (Complex.CArith FloatInst.SAF))) (Cr i) (Ci i) (eM + eX)) ->
+  ComplexRound.ffinite d -> ComplexRound.FR d = (IZR Dd * Flocq.Core.Raux.bpow Flocq.Core.Zaux.radix2 eX)%R -> (0 < Dd)%Z ->
+  (-1074 <= eX <= 971)%Z -> (-1074 <= eM <= 971)%Z -> (-1074 <= eM + eX <= 971)%Z ->
+  (-1074 <= eX + eX <= 971)%Z -> (-1074 <= eM + eX + eX <= 971)%Z ->
+  (forall j, (j < cols M)%nat -> (Z.abs (Xr j) + Dd < 2 ^ 53 /\ Z.abs (Xi j) < 2 ^ 53)%Z) ->
+  (forall i, (i < rows M)%nat ->
+     (JacExactFloat.zsumn (cols M) (fun k => (Z.abs (Mr i k) + Z.abs (Mi i k)) * (Z.abs (Xr k) + Z.abs (Xi k) + Dd))
+      + (Z.abs (Cr i) + Z.abs (Ci i)) < 2 ^ 53)%Z) ->
+  (Dd * Dd < 2 ^ 53)%Z ->
+  (forall i j, (i < rows M)%nat -> (j < cols M)%nat -> ((Z.abs (Mr i j) + Z.abs (Mi i j)) * (Dd * Dd) < 2 ^ 53)%Z) ->
+  jacobian_tr (NCplx FloatInst.SAF) (fun p => Ok (aff (NCplx FloatInst.SAF) M c p)) x (emb (NCplx FloatInst.SAF) d) =
+    Ok (x, M, x :: map (perturbed (NCplx FloatInst.SAF) x (emb (NCplx FloatInst.SAF) d)) (seq 0 (length x))) /\
+  jacobian (NCplx FloatInst.SAF) (fun p => Ok (aff (NCplx FloatInst.SAF) M c p)) x (emb (NCplx FloatInst.SAF) d) =
+    Ok (M, x :: map (perturbed (NCplx FloatInst.SAF) x (emb (NCplx FloatInst.SAF) d)) (seq 0 (length x))).
+Print Assumptions jacobian_affine_exact_float_C.
+Example jacobian_affine_exact_float_C_nonvacuous :
+  wf JacExactFloatC.exc_M /\ length JacExactFloatC.exc_x = cols JacExactFloatC.exc_M /\
+  (forall i j, (i < rows JacExactFloatC.exc_M)%nat -> (j < cols JacExactFloatC.exc_M)%nat ->
+     JacExactFloatC.gdy (ment (NCplx FloatInst.SAF) JacExactFloatC.exc_M i j) (JacExactFloatC.exc_Mr i j) (JacExactFloatC.exc_Mi i j) 0 /\
+     JacExactFloatC.cnnz (ment (NCplx FloatInst.SAF) JacExactFloatC.exc_M i j)) /\
+  (forall j, (j < cols JacExactFloatC.exc_M)%nat ->
+     JacExactFloatC.gdy (nth j JacExactFloatC.exc_x (@zero (Complex.CArith FloatInst.SAF))) (JacExactFloatC.exc_Xr j) (JacExactFloatC.exc_Xi j) (-20) /\
+     JacExactFloatC.cnnz (nth j JacExactFloatC.exc_x (@zero (Complex.CArith FloatInst.SAF)))) /\
+  (forall i, (i < rows JacExactFloatC.exc_M)%nat ->
+     JacExactFloatC.gdy (nth i JacExactFloatC.exc_c (@zero (Complex.CArith FloatInst.SAF))) (JacExactFloatC.exc_Cr i) (JacExactFloatC.exc_Ci i) (0 + -20)) /\
+  ComplexRound.ffinite JacExactFloat.exj_d /\
+  ComplexRound.FR JacExactFloat.exj_d = (IZR 1 * Flocq.Core.Raux.bpow Flocq.Core.Zaux.radix2 (-20))%R /\
+  (forall j, (j < cols JacExactFloatC.exc_M)%nat ->
+     (Z.abs (JacExactFloatC.exc_Xr j) + 1 < 2 ^ 53 /\ Z.abs (JacExactFloatC.exc_Xi j) < 2 ^ 53)%Z) /\
+  (forall i, (i < rows JacExactFloatC.exc_M)%nat ->
+     (JacExactFloat.zsumn (cols JacExactFloatC.exc_M)
+        (fun k => (Z.abs (JacExactFloatC.exc_Mr i k) + Z.abs (JacExactFloatC.exc_Mi i k)) *
+                  (Z.abs (JacExactFloatC.exc_Xr k) + Z.abs (JacExactFloatC.exc_Xi k) + 1))
+      + (Z.abs (JacExactFloatC.exc_Cr i) + Z.abs (JacExactFloatC.exc_Ci i)) < 2 ^ 53)%Z) /\
+  (forall i j, (i < rows JacExactFloatC.exc_M)%nat -> (j < cols JacExactFloatC.exc_M)%nat ->
+     ((Z.abs (JacExactFloatC.exc_Mr i j) + Z.abs (JacExactFloatC.exc_Mi i j)) * (1 * 1) < 2 ^ 53)%Z) /\
+  (* delta = 2^-20, M = [1+2i, -1; 3i, 2-i], x = (0.5 - 1.25 i, 3 + 0.75 i), c = (0.5 + 0.25 i, 1): the run returns M *)
+  exists evs, jacobian (NCplx FloatInst.SAF) (fun p => Ok (aff (NCplx FloatInst.SAF) JacExactFloatC.exc_M JacExactFloatC.exc_c p))
+                JacExactFloatC.exc_x (emb (NCplx FloatInst.SAF) JacExactFloat.exj_d) = Ok (JacExactFloatC.exc_M, evs).
+Proof.
+  split; [reflexivity|]. split; [reflexivity|]. split; [exact JacExactFloatC.exc_M_dy|]. split; [exact JacExactFloatC.exc_x_dy|].
+  split; [exact JacExactFloatC.exc_c_dy|]. split; [exact (proj1 JacExactFloat.exj_d_dy)|]. split; [exact (proj2 JacExactFloat.exj_d_dy)|].
+  split; [exact JacExactFloatC.exc_bx|]. split; [exact JacExactFloatC.exc_brow|]. split; [exact JacExactFloatC.exc_bmd|].
+  eexists. exact JacExactFloatC.exc_value.
+Qed.
+(* outside the hypotheses (delta = 1e-8, re x_0 = 0.9999999999): the real parts of all non-zero entries are wrong, the entry -1 + 0 i
+   comes back with a NEGATIVE imaginary part (-2.2e-8), and re x_0 is restored one ulp smaller *)
+Example jacobian_affine_float_C_inexact_nondyadic :
+  exists st J evs,
+    jacobian_tr (NCplx FloatInst.SAF) (fun p => Ok (aff (NCplx FloatInst.SAF) JacExactFloatC.exc_M JacExactFloatC.exc_c p))
+                JacExactFloatC.exc_x2
+                (emb (NCplx FloatInst.SAF) JacExactFloat.exj_d2) = Ok (st, J, evs) /\
+    map (fun k => PrimFloat.eqb (Complex.re (nth k (buf J) (@zero (Complex.CArith FloatInst.SAF)))) (Complex.re (nth k (buf JacExactFloatC.exc_M) (@zero (Complex.CArith FloatInst.SAF))))) (seq 0 4) =
+      [false; false; true; false] /\
+    PrimFloat.ltb (Complex.im (nth 1 (buf J) (@zero (Complex.CArith FloatInst.SAF)))) (@zero FloatInst.AF) = true /\
+    PrimFloat.ltb (Complex.re (nth 0 st (@zero (Complex.CArith FloatInst.SAF)))) (Complex.re (nth 0 JacExactFloatC.exc_x2 (@zero (Complex.CArith FloatInst.SAF)))) = true.
+Proof. exact JacExactFloatC.exc_inexact. Qed.
+(* im x_0 = -0 comes back as +0 -- already the first perturbed call is made at im = +0 *)
+Example jacobian_affine_float_C_negzero :
+  exists st J evs,
+    jacobian_tr (NCplx FloatInst.SAF) (fun p => Ok (aff (NCplx FloatInst.SAF) JacExactFloatC.exc_M JacExactFloatC.exc_c p))
+                JacExactFloatC.exc_xneg
+                (emb (NCplx FloatInst.SAF) JacExactFloat.exj_d) = Ok (st, J, evs) /\
+    PrimFloat.get_sign (Complex.im (nth 0 st (@zero (Complex.CArith FloatInst.SAF)))) = false /\
+    PrimFloat.get_sign (Complex.im (nth 0 (nth 1 evs []) (@zero (Complex.CArith FloatInst.SAF)))) = false /\
+    PrimFloat.get_sign PrimFloat.neg_zero = true.
+Proof. exact JacExactFloatC.exc_negzero. Qed.
+
+(* ---- the standard model of floating-point arithmetic (Base/RoundModel.v; every operation = exact result times (1 + e), |e| <= u) ----
+   state[j] += delta; state[j] -= delta  on non-dyadic data: the coordinate comes back within (2u + u^2)(|x_j| + |delta|) of x_j *)
+Theorem restore_drift : forall (u : R), (0 <= u < 1)%R ->
+  forall (fadd fsub fmul fdiv : R -> R -> R),
+  (forall x y : R, exists e : R, (Rabs e <= u)%R /\ fadd x y = ((x + y) * (1 + e))%R) ->
+  (forall x y : R, exists e : R, (Rabs e <= u)%R /\ fsub x y = ((x - y) * (1 + e))%R) ->
+  forall x d : R,
+  (Rabs (fsub (fadd x d) d - x) <= u * (1 + u) * Rabs (x + d) + u * Rabs x)%R /\
+  (Rabs (fsub (fadd x d) d - x) <= (2 * u + u * u) * (Rabs x + Rabs d))%R.
+Proof. intros u Hu fadd fsub fmul fdiv Ha Hs. exact (JacExactRound.restore_drift_lemma u Hu fadd fsub Ha Hs). Qed.
+Check restore_drift : forall (u : R), (0 <= u < 1)%R ->
+  forall (fadd fsub fmul fdiv : R -> R -> R),
+  (forall x y : R, exists e : R, (Rabs e <= u)%R /\ fadd x y = ((x + y) * (1 + e))%R) ->
+  (forall x y : R, exists e : R, (Rabs e <= u)%R /\ fsub x y = ((x - y) * (1 + e))%R) ->
+  forall x d : R,
+  (Rabs (fsub (fadd x d) d - x) <= u * (1 + u) * Rabs (x + d) + u * Rabs x)%R /\
+  (Rabs (fsub (fadd x d) d - x) <= (2 * u + u * u) * (Rabs x + Rabs d))%R.
+Print Assumptions restore_drift.
+(* the hypotheses hold for round-to-nearest-even in precision 53, u = 2^-53 (Proofs/RoundFlx.v) *)
+Example restore_drift_nonvacuous :
+  (0 <= RoundFlx.ux < 1)%R /\
+  (forall x y : R, exists e : R, (Rabs e <= RoundFlx.ux)%R /\ RoundFlx.xadd x y = ((x + y) * (1 + e))%R) /\
+  (forall x y : R, exists e : R, (Rabs e <= RoundFlx.ux)%R /\ RoundFlx.xsub x y = ((x - y) * (1 + e))%R) /\
+  (forall x y : R, y <> 0%R -> exists e : R, (Rabs e <= RoundFlx.ux)%R /\ RoundFlx.xdiv x y = (x / y * (1 + e))%R).
+Proof. split; [exact RoundFlx.ux_range|]. split; [exact RoundFlx.xadd_ok|]. split; [exact RoundFlx.xsub_ok|exact RoundFlx.xdiv_ok]. Qed.
+
+(* all columns: column j is evaluated at a point whose coordinate j is fl(x_j + delta), whose coordinates k < j have drifted by at most
+   (2u + u^2)(|x_k| + |delta|) and whose coordinates k > j are x_k; the loop ends with a state within that distance of x *)
+Theorem jacobian_call_points_drift : forall (u : R), (0 <= u < 1)%R ->
+  forall (fadd fsub fmul fdiv : R -> R -> R),
+  (forall x y : R, exists e : R, (Rabs e <= u)%R /\ fadd x y = ((x + y) * (1 + e))%R) ->
+  (forall x y : R, exists e : R, (Rabs e <= u)%R /\ fsub x y = ((x - y) * (1 + e))%R) ->
+  forall (F : list R -> res (list R)) (x : list R) (d : R) (st : list R) (J : matrix (RoundModel.ARm fadd fsub fmul fdiv))
+    (evs : list (list R)),
+  jacobian_tr (NReal (RoundModel.ARm fadd fsub fmul fdiv)) F x d = Ok (st, J, evs) ->
+  evs = x :: map (JacExactGen.call_pt (NReal (RoundModel.ARm fadd fsub fmul fdiv)) x d) (seq 0 (length x)) /\
+  (forall j k, (j < length x)%nat ->
+     (Rabs (nth k (JacExactGen.call_pt (NReal (RoundModel.ARm fadd fsub fmul fdiv)) x d j) 0 - (if (k =? j)%nat then nth j x 0 + d else nth k x 0)) <=
+       (if (k =? j)%nat then u * Rabs (nth k x 0 + d)
+        else if (k <? j)%nat then (2 * u + u * u) * (Rabs (nth k x 0) + Rabs d) else 0))%R) /\
+  length st = length x /\
+  (forall k, (Rabs (nth k st 0 - nth k x 0) <= (2 * u + u * u) * (Rabs (nth k x 0) + Rabs d))%R).
+Proof. intros u Hu fadd fsub fmul fdiv Ha Hs. exact (JacExactRound.jacobian_call_points_drift_explicit u Hu fadd fsub fmul fdiv Ha Hs). Qed.
+Check jacobian_call_points_drift : forall (u : R), (0 <= u < 1)%R ->
+  forall (fadd fsub fmul fdiv : R -> R -> R),
+  (forall x y : R, exists e : R, (Rabs e <= u)%R /\ fadd x y = ((x + y) * (1 + e))%R) ->
+  (forall x y : R, exists e : R, (Rabs e <= u)%R /\ fsub x y = ((x - y) * (1 + e))%R) ->
+  forall (F : list R -> res (list R)) (x : list R) (d : R) (st : list R) (J : matrix (RoundModel.ARm fadd fsub fmul fdiv))
+    (evs : list (list R)),
+  jacobian_tr (NReal (RoundModel.ARm fadd fsub fmul fdiv)) F x d = Ok (st, J, evs) ->
+  evs = x :: map (JacExactGen.call_pt (NReal (RoundModel.ARm fadd fsub fmul fdiv)) x d) (seq 0 (length x)) /\
+  (forall j k, (j < length x)%nat ->
+     (Rabs (nth k (JacExactGen.call_pt (NReal (RoundModel.ARm fadd fsub fmul fdiv)) x d j) 0 - (if (k =? j)%nat then nth j x 0 + d else nth k x 0)) <=
+       (if (k =? j)%nat then u * Rabs (nth k x 0 + d)
+        else if (k <? j)%nat then (2 * u + u * u) * (Rabs (nth k x 0) + Rabs d) else 0))%R) /\
+  length st = length x /\
+  (forall k, (Rabs (nth k st 0 - nth k x 0) <= (2 * u + u * u) * (Rabs (nth k x 0) + Rabs d))%R).
+Print Assumptions jacobian_call_points_drift.
+Example jacobian_call_points_drift_nonvacuous :
+  exists st (J : matrix RoundFlx.AFlx) evs,
+    jacobian_tr (NReal RoundFlx.AFlx) JacExactRoundEx.Fq [1%R; 2%R] (1 / 4)%R = Ok (st, J, evs).
+Proof. exact JacExactRoundEx.jacobian_tr_round_witness. Qed.
+
+(* the ROUNDING FLOOR of the difference quotient, for ANY function: F is the computed function (any code run in the model arithmetic),
+   f_i the exact component it approximates with relative error eps at the two call points x and p_j = call_pt j.  Then
+     | J_ij - (f_i(p_j) - f_i(x)) / delta |  <=  ( 2u + u^2 + eps (1+u)^2 ) ( |f_i(p_j)| + |f_i(x)| ) / |delta| :
+   the floor c u |f| / |delta| (eps = c' u) that no choice of delta removes *)
+Theorem jacobian_rounding_floor : forall (u : R), (0 <= u < 1)%R ->
+  forall (fadd fsub fmul fdiv : R -> R -> R),
+  (forall x y : R, exists e : R, (Rabs e <= u)%R /\ fadd x y = ((x + y) * (1 + e))%R) ->
+  (forall x y : R, exists e : R, (Rabs e <= u)%R /\ fsub x y = ((x - y) * (1 + e))%R) ->
+  (forall x y : R, y <> 0%R -> exists e : R, (Rabs e <= u)%R /\ fdiv x y = (x / y * (1 + e))%R) ->
+  forall (F : list R -> res (list R)) (x : list R) (d : R) (J : matrix (RoundModel.ARm fadd fsub fmul fdiv)) (evs : list (list R)),
+  jacobian (NReal (RoundModel.ARm fadd fsub fmul fdiv)) F x d = Ok (J, evs) -> d <> 0%R ->
+  forall (i j : nat) (fi : list R -> R) (eps : R),
+  (i < rows J)%nat -> (j < length x)%nat -> (0 <= eps)%R ->
+  (forall v, F x = Ok v -> (Rabs (nth i v 0 - fi x) <= eps * Rabs (fi x))%R) ->
+  (forall v, F (JacExactGen.call_pt (NReal (RoundModel.ARm fadd fsub fmul fdiv)) x d j) = Ok v ->
+     (Rabs (nth i v 0 - fi (JacExactGen.call_pt (NReal (RoundModel.ARm fadd fsub fmul fdiv)) x d j)) <= eps * Rabs (fi (JacExactGen.call_pt (NReal (RoundModel.ARm fadd fsub fmul fdiv)) x d j)))%R) ->
+  exists q : R, mget J i j = Ok q /\
+    (Rabs (q - (fi (JacExactGen.call_pt (NReal (RoundModel.ARm fadd fsub fmul fdiv)) x d j) - fi x) / d) <=
+      ((2 * u + u * u) * Rabs (fi (JacExactGen.call_pt (NReal (RoundModel.ARm fadd fsub fmul fdiv)) x d j) - fi x) +
+       eps * ((1 + u) * (1 + u)) * (Rabs (fi (JacExactGen.call_pt (NReal (RoundModel.ARm fadd fsub fmul fdiv)) x d j)) + Rabs (fi x))) / Rabs d)%R /\
+    (Rabs (q - (fi (JacExactGen.call_pt (NReal (RoundModel.ARm fadd fsub fmul fdiv)) x d j) - fi x) / d) <=
+      (2 * u + u * u + eps * ((1 + u) * (1 + u))) * (Rabs (fi (JacExactGen.call_pt (NReal (RoundModel.ARm fadd fsub fmul fdiv)) x d j)) + Rabs (fi x)) / Rabs d)%R.
+Proof. intros u Hu fadd fsub fmul fdiv Ha Hs Hd. exact (JacExactRound.jacobian_rounding_floor_lemma u Hu fadd fsub fmul fdiv Hs Hd). Qed.
+Check jacobian_rounding_floor : forall (u : R), (0 <= u < 1)%R ->
+  forall (fadd fsub fmul fdiv : R -> R -> R),
+  (forall x y : R, exists e : R, (Rabs e <= u)%R /\ fadd x y = ((x + y) * (1 + e))%R) ->
+  (forall x y : R, exists e : R, (Rabs e <= u)%R /\ fsub x y = ((x - y) * (1 + e))%R) ->
+  (forall x y : R, y <> 0%R -> exists e : R, (Rabs e <= u)%R /\ fdiv x y = (x / y * (1 + e))%R) ->
+  forall (F : list R -> res (list R)) (x : list R) (d : R) (J : matrix (RoundModel.ARm fadd fsub fmul fdiv)) (evs : list (list R)),
+  jacobian (NReal (RoundModel.ARm fadd fsub fmul fdiv)) F x d = Ok (J, evs) -> d <> 0%R ->
+  forall (i j : nat) (fi : list R -> R) (eps : R),
+  (i < rows J)%nat -> (j < length x)%nat -> (0 <= eps)%R ->
+  (forall v, F x = Ok v -> (Rabs (nth i v 0 - fi x) <= eps * Rabs (fi x))%R) ->
+  (forall v, F (JacExactGen.call_pt (NReal (RoundModel.ARm fadd fsub fmul fdiv)) x d j) = Ok v ->
+     (Rabs (nth i v 0 - fi (JacExactGen.call_pt (NReal (RoundModel.ARm fadd fsub fmul fdiv)) x d j)) <= eps * Rabs (fi (JacExactGen.call_pt (NReal (RoundModel.ARm fadd fsub fmul fdiv)) x d j)))%R) ->
+  exists q : R, mget J i j = Ok q /\
+    (Rabs (q - (fi (JacExactGen.call_pt (NReal (RoundModel.ARm fadd fsub fmul fdiv)) x d j) - fi x) / d) <=
+      ((2 * u + u * u) * Rabs (fi (JacExactGen.call_pt (NReal (RoundModel.ARm fadd fsub fmul fdiv)) x d j) - fi x) +
+       eps * ((1 + u) * (1 + u)) * (Rabs (fi (JacExactGen.call_pt (NReal (RoundModel.ARm fadd fsub fmul fdiv)) x d j)) + Rabs (fi x))) / Rabs d)%R /\
+    (Rabs (q - (fi (JacExactGen.call_pt (NReal (RoundModel.ARm fadd fsub fmul fdiv)) x d j) - fi x) / d) <=
+      (2 * u + u * u + eps * ((1 + u) * (1 + u))) * (Rabs (fi (JacExactGen.call_pt (NReal (RoundModel.ARm fadd fsub fmul fdiv)) x d j)) + Rabs (fi x)) / Rabs d)%R.
+Print Assumptions jacobian_rounding_floor.
+(* F(a, b) = (fl(fl(a a) b)) in round-to-nearest precision 53, f(a, b) = a^2 b, eps = 2u + u^2, at (1, 2), delta = 1/4 *)
+Example jacobian_rounding_floor_nonvacuous :
+  exists (J : matrix RoundFlx.AFlx) evs,
+    jacobian (NReal RoundFlx.AFlx) JacExactRoundEx.Fq [1%R; 2%R] (1 / 4)%R = Ok (J, evs) /\ (1 / 4)%R <> 0%R /\
+    (0 < rows J)%nat /\ (0 < length [1%R; 2%R])%nat /\ (0 <= JacExactRoundEx.epsq)%R /\
+    (forall v, JacExactRoundEx.Fq [1%R; 2%R] = Ok v ->
+       (Rabs (nth 0 v 0 - JacExactRoundEx.fq [1%R; 2%R]) <= JacExactRoundEx.epsq * Rabs (JacExactRoundEx.fq [1%R; 2%R]))%R) /\
+    (forall v, JacExactRoundEx.Fq (JacExactGen.call_pt (NReal RoundFlx.AFlx) [1%R; 2%R] (1 / 4)%R 0) = Ok v ->
+       (Rabs (nth 0 v 0 - JacExactRoundEx.fq (JacExactGen.call_pt (NReal RoundFlx.AFlx) [1%R; 2%R] (1 / 4)%R 0)) <=
+        JacExactRoundEx.epsq * Rabs (JacExactRoundEx.fq (JacExactGen.call_pt (NReal RoundFlx.AFlx) [1%R; 2%R] (1 / 4)%R 0)))%R) /\
+    (forall t, derivable_pt_lim (fun t => JacExactRoundEx.fq (upd_list [1%R; 2%R] 0 (nth 0 [1%R; 2%R] 0%R + t)%R)) t (4 * (1 + t))%R) /\
+    (forall t, derivable_pt_lim (fun t => 4 * (1 + t))%R t 4%R) /\
+    (Rabs 4 <= 4)%R.
+Proof. exact JacExactRoundEx.jacobian_round_witness. Qed.
+
+(* TOTAL error of an entry against the partial derivative g1 0 = d f_i / d x_j (x), g(t) = f_i(x + t e_j) in exact arithmetic:
+     truncation (|delta|/2) sup|g''|   [jacobian_truncation]   +   rounding floor   [jacobian_rounding_floor]   +   Dr / |delta|,
+   Dr a bound on |f_i(p_j) - f_i(x + delta e_j)|, the effect of evaluating column j at the drifted point (jacobian_drift_lipschitz) *)
+Theorem jacobian_total_error : forall (u : R), (0 <= u < 1)%R ->
+  forall (fadd fsub fmul fdiv : R -> R -> R),
+  (forall x y : R, exists e : R, (Rabs e <= u)%R /\ fadd x y = ((x + y) * (1 + e))%R) ->
+  (forall x y : R, exists e : R, (Rabs e <= u)%R /\ fsub x y = ((x - y) * (1 + e))%R) ->
+  (forall x y : R, y <> 0%R -> exists e : R, (Rabs e <= u)%R /\ fdiv x y = (x / y * (1 + e))%R) ->
+  forall (F : list R -> res (list R)) (x : list R) (d : R) (J : matrix (RoundModel.ARm fadd fsub fmul fdiv)) (evs : list (list R)),
+  jacobian (NReal (RoundModel.ARm fadd fsub fmul fdiv)) F x d = Ok (J, evs) -> d <> 0%R ->
+  forall (i j : nat) (fi : list R -> R) (eps Dr : R) (g1 g2 : R -> R) (B : R),
+  (i < rows J)%nat -> (j < length x)%nat -> (0 <= eps)%R ->
+  (forall v, F x = Ok v -> (Rabs (nth i v 0 - fi x) <= eps * Rabs (fi x))%R) ->
+  (forall v, F (JacExactGen.call_pt (NReal (RoundModel.ARm fadd fsub fmul fdiv)) x d j) = Ok v ->
+     (Rabs (nth i v 0 - fi (JacExactGen.call_pt (NReal (RoundModel.ARm fadd fsub fmul fdiv)) x d j)) <= eps * Rabs (fi (JacExactGen.call_pt (NReal (RoundModel.ARm fadd fsub fmul fdiv)) x d j)))%R) ->
+  (forall t, (Rmin 0 d <= t <= Rmax 0 d)%R -> derivable_pt_lim (fun t => fi (upd_list x j (nth j x 0 + t)%R)) t (g1 t)) ->
+  (forall t, (Rmin 0 d <= t <= Rmax 0 d)%R -> derivable_pt_lim g1 t (g2 t)) ->
+  (forall t, (Rmin 0 d <= t <= Rmax 0 d)%R -> (Rabs (g2 t) <= B)%R) ->
+  (Rabs (fi (JacExactGen.call_pt (NReal (RoundModel.ARm fadd fsub fmul fdiv)) x d j) - fi (upd_list x j (nth j x 0 + d)%R)) <= Dr)%R ->
+  exists q : R, mget J i j = Ok q /\
+    (Rabs (q - g1 0) <=
+      Rabs d / 2 * B +
+      ((2 * u + u * u) * Rabs (fi (JacExactGen.call_pt (NReal (RoundModel.ARm fadd fsub fmul fdiv)) x d j) - fi x) +
+       eps * ((1 + u) * (1 + u)) * (Rabs (fi (JacExactGen.call_pt (NReal (RoundModel.ARm fadd fsub fmul fdiv)) x d j)) + Rabs (fi x))) / Rabs d +
+      Dr / Rabs d)%R.
+Proof. intros u Hu fadd fsub fmul fdiv Ha Hs Hd. exact (JacExactRound.jacobian_total_error_lemma u Hu fadd fsub fmul fdiv Hs Hd). Qed.
+Check jacobian_total_error : forall (u : R), (0 <= u < 1)%R ->
+  forall (fadd fsub fmul fdiv : R -> R -> R),
+  (forall x y : R, exists e : R, (Rabs e <= u)%R /\ fadd x y = ((x + y) * (1 + e))%R) ->
+  (forall x y : R, exists e : R, (Rabs e <= u)%R /\ fsub x y = ((x - y) * (1 + e))%R) ->
+  (forall x y : R, y <> 0%R -> exists e : R, (Rabs e <= u)%R /\ fdiv x y = (x / y * (1 + e))%R) ->
+  forall (F : list R -> res (list R)) (x : list R) (d : R) (J : matrix (RoundModel.ARm fadd fsub fmul fdiv)) (evs : list (list R)),
+  jacobian (NReal (RoundModel.ARm fadd fsub fmul fdiv)) F x d = Ok (J, evs) -> d <> 0%R ->
+  forall (i j : nat) (fi : list R -> R) (eps Dr : R) (g1 g2 : R -> R) (B : R),
+  (i < rows J)%nat -> (j < length x)%nat -> (0 <= eps)%R ->
+  (forall v, F x = Ok v -> (Rabs (nth i v 0 - fi x) <= eps * Rabs (fi x))%R) ->
+  (forall v, F (JacExactGen.call_pt (NReal (RoundModel.ARm fadd fsub fmul fdiv)) x d j) = Ok v ->
+     (Rabs (nth i v 0 - fi (JacExactGen.call_pt (NReal (RoundModel.ARm fadd fsub fmul fdiv)) x d j)) <= eps * Rabs (fi (JacExactGen.call_pt (NReal (RoundModel.ARm fadd fsub fmul fdiv)) x d j)))%R) ->
+  (forall t, (Rmin 0 d <= t <= Rmax 0 d)%R -> derivable_pt_lim (fun t => fi (upd_list x j (nth j x 0 + t)%R)) t (g1 t)) ->
+  (forall t, (Rmin 0 d <= t <= Rmax 0 d)%R -> derivable_pt_lim g1 t (g2 t)) ->
+  (forall t, (Rmin 0 d <= t <= Rmax 0 d)%R -> (Rabs (g2 t) <= B)%R) ->
+  (Rabs (fi (JacExactGen.call_pt (NReal (RoundModel.ARm fadd fsub fmul fdiv)) x d j) - fi (upd_list x j (nth j x 0 + d)%R)) <= Dr)%R ->
+  exists q : R, mget J i j = Ok q /\
+    (Rabs (q - g1 0) <=
+      Rabs d / 2 * B +
+      ((2 * u + u * u) * Rabs (fi (JacExactGen.call_pt (NReal (RoundModel.ARm fadd fsub fmul fdiv)) x d j) - fi x) +
+       eps * ((1 + u) * (1 + u)) * (Rabs (fi (JacExactGen.call_pt (NReal (RoundModel.ARm fadd fsub fmul fdiv)) x d j)) + Rabs (fi x))) / Rabs d +
+      Dr / Rabs d)%R.
+Print Assumptions jacobian_total_error.
+(* non-vacuity: jacobian_rounding_floor_nonvacuous above exhibits F, f, eps, g' = 4 (1 + t), g'' = 4 = B; Dr can be taken
+   to be |f(p_0) - f(x + delta e_0)| itself *)
+
+(* the drift term Dr of jacobian_total_error from coordinate-wise Lipschitz constants L_k of f_i around x + delta e_j (on the drift box):
+     Dr = L_j u |x_j + delta| + Sum_(k<j) L_k (2u + u^2)(|x_k| + |delta|)         (Rsum n f = Sum_(k<n) f k) *)
+Theorem jacobian_drift_lipschitz : forall (u : R), (0 <= u < 1)%R ->
+  forall (fadd fsub fmul fdiv : R -> R -> R),
+  (forall x y : R, exists e : R, (Rabs e <= u)%R /\ fadd x y = ((x + y) * (1 + e))%R) ->
+  (forall x y : R, exists e : R, (Rabs e <= u)%R /\ fsub x y = ((x - y) * (1 + e))%R) ->
+  forall (x : list R) (d : R) (j : nat) (fi : list R -> R) (L : nat -> R),
+  (j < length x)%nat -> (forall k, (0 <= L k)%R) ->
+  (forall p, length p = length x ->
+     (forall k, (Rabs (nth k p 0 - nth k (upd_list x j (nth j x 0 + d)%R) 0) <=
+        (if (k =? j)%nat then u * Rabs (nth k x 0 + d)
+         else if (k <? j)%nat then (2 * u + u * u) * (Rabs (nth k x 0) + Rabs d) else 0))%R) ->
+     (Rabs (fi p - fi (upd_list x j (nth j x 0 + d)%R)) <=
+       RoundModel.Rsum (length x) (fun k => L k * Rabs (nth k p 0 - nth k (upd_list x j (nth j x 0 + d)%R) 0)))%R) ->
+  (Rabs (fi (JacExactGen.call_pt (NReal (RoundModel.ARm fadd fsub fmul fdiv)) x d j) - fi (upd_list x j (nth j x 0 + d)%R)) <=
+    RoundModel.Rsum (length x) (fun k => L k * (if (k =? j)%nat then u * Rabs (nth k x 0 + d)
+                                                 else if (k <? j)%nat then (2 * u + u * u) * (Rabs (nth k x 0) + Rabs d) else 0)))%R.
+Proof. intros u Hu fadd fsub fmul fdiv Ha Hs. exact (JacExactRound.drift_lipschitz_explicit u Hu fadd fsub fmul fdiv Ha Hs). Qed.
+Check jacobian_drift_lipschitz : forall (u : R), (0 <= u < 1)%R ->
+  forall (fadd fsub fmul fdiv : R -> R -> R),
+  (forall x y : R, exists e : R, (Rabs e <= u)%R /\ fadd x y = ((x + y) * (1 + e))%R) ->
+  (forall x y : R, exists e : R, (Rabs e <= u)%R /\ fsub x y = ((x - y) * (1 + e))%R) ->
+  forall (x : list R) (d : R) (j : nat) (fi : list R -> R) (L : nat -> R),
+  (j < length x)%nat -> (forall k, (0 <= L k)%R) ->
+  (forall p, length p = length x ->
+     (forall k, (Rabs (nth k p 0 - nth k (upd_list x j (nth j x 0 + d)%R) 0) <=
+        (if (k =? j)%nat then u * Rabs (nth k x 0 + d)
+         else if (k <? j)%nat then (2 * u + u * u) * (Rabs (nth k x 0) + Rabs d) else 0))%R) ->
+     (Rabs (fi p - fi (upd_list x j (nth j x 0 + d)%R)) <=
+       RoundModel.Rsum (length x) (fun k => L k * Rabs (nth k p 0 - nth k (upd_list x j (nth j x 0 + d)%R) 0)))%R) ->
+  (Rabs (fi (JacExactGen.call_pt (NReal (RoundModel.ARm fadd fsub fmul fdiv)) x d j) - fi (upd_list x j (nth j x 0 + d)%R)) <=
+    RoundModel.Rsum (length x) (fun k => L k * (if (k =? j)%nat then u * Rabs (nth k x 0 + d)
+                                                 else if (k <? j)%nat then (2 * u + u * u) * (Rabs (nth k x 0) + Rabs d) else 0)))%R.
+Print Assumptions jacobian_drift_lipschitz.
+Example jacobian_drift_lipschitz_nonvacuous :
+  (0 < length [1%R; 2%R])%nat /\ (forall k, (0 <= JacExactRoundEx.Llin k)%R) /\
+  forall p, length p = length [1%R; 2%R] ->
+    (Rabs (JacExactRoundEx.flin p - JacExactRoundEx.flin (upd_list [1%R; 2%R] 0 (nth 0 [1%R; 2%R] 0 + 1 / 4)%R)) <=
+      RoundModel.Rsum (length [1%R; 2%R])
+        (fun k => JacExactRoundEx.Llin k * Rabs (nth k p 0 - nth k (upd_list [1%R; 2%R] 0 (nth 0 [1%R; 2%R] 0 + 1 / 4)%R) 0)))%R.
+Proof. exact JacExactRoundEx.drift_lipschitz_witness. Qed.
+
+(* the textbook trade-off between the two terms of jacobian_total_error: truncation (B/2) delta + floor K / delta  (B = sup|g''|,
+   K = (2u + u^2 + eps (1+u)^2)(|f_i(p_j)| + |f_i(x)|) ~ u |f|) is at least sqrt(2 B K) for EVERY step, with equality at
+   delta = sqrt(2K/B) ~ sqrt(u): half the digits is the best a forward difference can do *)
+Theorem fd_optimal_step : forall (B K : R), (0 < B)%R -> (0 < K)%R ->
+  (forall d, (0 < d)%R -> (R_sqrt.sqrt (2 * B * K) <= B / 2 * d + K / d)%R) /\
+  (0 < R_sqrt.sqrt (2 * K / B))%R /\
+  (B / 2 * R_sqrt.sqrt (2 * K / B) + K / R_sqrt.sqrt (2 * K / B))%R = R_sqrt.sqrt (2 * B * K).
+Proof. exact JacExactRound.fd_optimal_step_lemma. Qed.
+Check fd_optimal_step : forall (B K : R), (0 < B)%R -> (0 < K)%R ->
+  (forall d, (0 < d)%R -> (R_sqrt.sqrt (2 * B * K) <= B / 2 * d + K / d)%R) /\
+  (0 < R_sqrt.sqrt (2 * K / B))%R /\
+  (B / 2 * R_sqrt.sqrt (2 * K / B) + K / R_sqrt.sqrt (2 * K / B))%R = R_sqrt.sqrt (2 * B * K).
+Print Assumptions fd_optimal_step.
+Example fd_optimal_step_nonvacuous : (0 < 4)%R /\ (0 < 4 * RoundFlx.ux)%R.
+Proof. exact JacExactRoundEx.fd_optimal_witness. Qed.
+
+(* the complex Jacobian in the standard model (NCplx over ARm; SARm adds a square root and `n as f64`, which the Jacobian does not use):
+   the step (delta, 0) is added componentwise -- the real part drifts like a real coordinate, the imaginary part goes through  (+ 0) (- 0)
+   (exact in IEEE arithmetic up to the sign of a zero; the standard model charges (2u + u^2)|im x_k|) *)
+Theorem jacobian_call_points_drift_C : forall (u : R), (0 <= u < 1)%R ->
+  forall (fadd fsub fmul fdiv : R -> R -> R) (fsqrt : R -> R),
+  (forall x y : R, exists e : R, (Rabs e <= u)%R /\ fadd x y = ((x + y) * (1 + e))%R) ->
+  (forall x y : R, exists e : R, (Rabs e <= u)%R /\ fsub x y = ((x - y) * (1 + e))%R) ->
+  forall (F : list (Complex.cplx (RoundModel.ARm fadd fsub fmul fdiv)) -> res (list (Complex.cplx (RoundModel.ARm fadd fsub fmul fdiv)))) (x : list (Complex.cplx (RoundModel.ARm fadd fsub fmul fdiv))) (d : R) (st : list (Complex.cplx (RoundModel.ARm fadd fsub fmul fdiv))) (J : matrix (NA (NCplx (JacExactRoundC.SARm fadd fsub fmul fdiv fsqrt)))) (evs : list (list (Complex.cplx (RoundModel.ARm fadd fsub fmul fdiv)))),
+  jacobian_tr (NCplx (JacExactRoundC.SARm fadd fsub fmul fdiv fsqrt)) F x (emb (NCplx (JacExactRoundC.SARm fadd fsub fmul fdiv fsqrt)) d) = Ok (st, J, evs) ->
+  evs = x :: map (JacExactGen.call_pt (NCplx (JacExactRoundC.SARm fadd fsub fmul fdiv fsqrt)) x (emb (NCplx (JacExactRoundC.SARm fadd fsub fmul fdiv fsqrt)) d)) (seq 0 (length x)) /\
+  (forall j k, (j < length x)%nat ->
+     (Rabs (Complex.re (nth k (JacExactGen.call_pt (NCplx (JacExactRoundC.SARm fadd fsub fmul fdiv fsqrt)) x (emb (NCplx (JacExactRoundC.SARm fadd fsub fmul fdiv fsqrt)) d) j) (@zero (NA (NCplx (JacExactRoundC.SARm fadd fsub fmul fdiv fsqrt))))) -
+            (if (k =? j)%nat then Complex.re (nth k x (@zero (NA (NCplx (JacExactRoundC.SARm fadd fsub fmul fdiv fsqrt))))) + d else Complex.re (nth k x (@zero (NA (NCplx (JacExactRoundC.SARm fadd fsub fmul fdiv fsqrt)))))))
+       <= (if (k =? j)%nat then u * Rabs (Complex.re (nth k x (@zero (NA (NCplx (JacExactRoundC.SARm fadd fsub fmul fdiv fsqrt))))) + d)
+           else if (k <? j)%nat then (2 * u + u * u) * (Rabs (Complex.re (nth k x (@zero (NA (NCplx (JacExactRoundC.SARm fadd fsub fmul fdiv fsqrt)))))) + Rabs d) else 0))%R /\
+     (Rabs (Complex.im (nth k (JacExactGen.call_pt (NCplx (JacExactRoundC.SARm fadd fsub fmul fdiv fsqrt)) x (emb (NCplx (JacExactRoundC.SARm fadd fsub fmul fdiv fsqrt)) d) j) (@zero (NA (NCplx (JacExactRoundC.SARm fadd fsub fmul fdiv fsqrt))))) - Complex.im (nth k x (@zero (NA (NCplx (JacExactRoundC.SARm fadd fsub fmul fdiv fsqrt))))))
+       <= (if (k =? j)%nat then u * Rabs (Complex.im (nth k x (@zero (NA (NCplx (JacExactRoundC.SARm fadd fsub fmul fdiv fsqrt))))))
+           else if (k <? j)%nat then (2 * u + u * u) * Rabs (Complex.im (nth k x (@zero (NA (NCplx (JacExactRoundC.SARm fadd fsub fmul fdiv fsqrt)))))) else 0))%R) /\
+  length st = length x /\
+  (forall k, (Rabs (Complex.re (nth k st (@zero (NA (NCplx (JacExactRoundC.SARm fadd fsub fmul fdiv fsqrt))))) - Complex.re (nth k x (@zero (NA (NCplx (JacExactRoundC.SARm fadd fsub fmul fdiv fsqrt)))))) <=
+              (2 * u + u * u) * (Rabs (Complex.re (nth k x (@zero (NA (NCplx (JacExactRoundC.SARm fadd fsub fmul fdiv fsqrt)))))) + Rabs d))%R /\
+             (Rabs (Complex.im (nth k st (@zero (NA (NCplx (JacExactRoundC.SARm fadd fsub fmul fdiv fsqrt))))) - Complex.im (nth k x (@zero (NA (NCplx (JacExactRoundC.SARm fadd fsub fmul fdiv fsqrt)))))) <= (2 * u + u * u) * Rabs (Complex.im (nth k x (@zero (NA (NCplx (JacExactRoundC.SARm fadd fsub fmul fdiv fsqrt)))))))%R).
+Proof. intros u Hu fadd fsub fmul fdiv fsqrt Ha Hs. exact (JacExactRoundC.jacobian_call_points_drift_C_explicit u Hu fadd fsub fmul fdiv fsqrt Ha Hs). Qed.
+Check jacobian_call_points_drift_C : forall (u : R), (0 <= u < 1)%R ->
+  forall (fadd fsub fmul fdiv : R -> R -> R) (fsqrt : R -> R),
+  (forall x y : R, exists e : R, (Rabs e <= u)%R /\ fadd x y = ((x + y) * (1 + e))%R) ->
+  (forall x y : R, exists e : R, (Rabs e <= u)%R /\ fsub x y = ((x - y) * (1 + e))%R) ->
+  forall (F : list (Complex.cplx (RoundModel.ARm fadd fsub fmul fdiv)) -> res (list (Complex.cplx (RoundModel.ARm fadd fsub fmul fdiv)))) (x : list (Complex.cplx (RoundModel.ARm fadd fsub fmul fdiv))) (d : R) (st : list (Complex.cplx (RoundModel.ARm fadd fsub fmul fdiv))) (J : matrix (NA (NCplx (JacExactRoundC.SARm fadd fsub fmul fdiv fsqrt)))) (evs : list (list (Complex.cplx (RoundModel.ARm fadd fsub fmul fdiv)))),
+  jacobian_tr (NCplx (JacExactRoundC.SARm fadd fsub fmul fdiv fsqrt)) F x (emb (NCplx (JacExactRoundC.SARm fadd fsub fmul fdiv fsqrt)) d) = Ok (st, J, evs) ->
+  evs = x :: map (JacExactGen.call_pt (NCplx (JacExactRoundC.SARm fadd fsub fmul fdiv fsqrt)) x (emb (NCplx (JacExactRoundC.SARm fadd fsub fmul fdiv fsqrt)) d)) (seq 0 (length x)) /\
+  (forall j k, (j < length x)%nat ->
+     (Rabs (Complex.re (nth k (JacExactGen.call_pt (NCplx (JacExactRoundC.SARm fadd fsub fmul fdiv fsqrt)) x (emb (NCplx (JacExactRoundC.SARm fadd fsub fmul fdiv fsqrt)) d) j) (@zero (NA (NCplx (JacExactRoundC.SARm fadd fsub fmul fdiv fsqrt))))) -
+            (if (k =? j)%nat then Complex.re (nth k x (@zero (NA (NCplx (JacExactRoundC.SARm fadd fsub fmul fdiv fsqrt))))) + d else Complex.re (nth k x (@zero (NA (NCplx (JacExactRoundC.SARm fadd fsub fmul fdiv fsqrt)))))))
+       <= (if (k =? j)%nat then u * Rabs (Complex.re (nth k x (@zero (NA (NCplx (JacExactRoundC.SARm fadd fsub fmul fdiv fsqrt))))) + d)
+           else if (k <? j)%nat then (2 * u + u * u) * (Rabs (Complex.re (nth k x (@zero (NA (NCplx (JacExactRoundC.SARm fadd fsub fmul fdiv fsqrt)))))) + Rabs d) else 0))%R /\
+     (Rabs (Complex.im (nth k (JacExactGen.call_pt (NCplx (JacExactRoundC.SARm fadd fsub fmul fdiv fsqrt)) x (emb (NCplx (JacExactRoundC.SARm fadd fsub fmul fdiv fsqrt)) d) j) (@zero (NA (NCplx (JacExactRoundC.SARm fadd fsub fmul fdiv fsqrt))))) - Complex.im (nth k x (@zero (NA (NCplx (JacExactRoundC.SARm fadd fsub fmul fdiv fsqrt))))))
+       <= (if (k =? j)%nat then u * Rabs (Complex.im (nth k x (@zero (NA (NCplx (JacExactRoundC.SARm fadd fsub fmul fdiv fsqrt))))))
+           else if (k <? j)%nat then (2 * u + u * u) * Rabs (Complex.im (nth k x (@zero (NA (NCplx (JacExactRoundC.SARm fadd fsub fmul fdiv fsqrt)))))) else 0))%R) /\
+  length st = length x /\
+  (forall k, (Rabs (Complex.re (nth k st (@zero (NA (NCplx (JacExactRoundC.SARm fadd fsub fmul fdiv fsqrt))))) - Complex.re (nth k x (@zero (NA (NCplx (JacExactRoundC.SARm fadd fsub fmul fdiv fsqrt)))))) <=
+              (2 * u + u * u) * (Rabs (Complex.re (nth k x (@zero (NA (NCplx (JacExactRoundC.SARm fadd fsub fmul fdiv fsqrt)))))) + Rabs d))%R /\
+             (Rabs (Complex.im (nth k st (@zero (NA (NCplx (JacExactRoundC.SARm fadd fsub fmul fdiv fsqrt))))) - Complex.im (nth k x (@zero (NA (NCplx (JacExactRoundC.SARm fadd fsub fmul fdiv fsqrt)))))) <= (2 * u + u * u) * Rabs (Complex.im (nth k x (@zero (NA (NCplx (JacExactRoundC.SARm fadd fsub fmul fdiv fsqrt)))))))%R).
+Print Assumptions jacobian_call_points_drift_C.
+(* non-vacuity: at the exact instance (u = 0, exact operations) the standard-model hypotheses hold and the run of
+   jacobian_truncation_C_nonvacuous applies; at binary64 jacobian_affine_float_C_inexact_nondyadic exhibits the drift of re x_0 *)
+Example jacobian_call_points_drift_C_nonvacuous :
+  (0 <= 0 < 1)%R /\
+  (forall x y : R, exists e : R, (Rabs e <= 0)%R /\ Rplus x y = ((x + y) * (1 + e))%R) /\
+  (forall x y : R, exists e : R, (Rabs e <= 0)%R /\ Rminus x y = ((x - y) * (1 + e))%R) /\
+  exists st J evs,
+    jacobian_tr (NCplx (JacExactRoundC.SARm Rplus Rminus Rmult Rdiv R_sqrt.sqrt))
+      (fun p => Ok p) [Complex.mkC (A := RoundModel.ARm Rplus Rminus Rmult Rdiv) 1%R 1%R]
+      (emb (NCplx (JacExactRoundC.SARm Rplus Rminus Rmult Rdiv R_sqrt.sqrt)) (1 / 4)%R) = Ok (st, J, evs).
+Proof.
+  split; [lra|]. split; [intros x y; exists 0%R; split; [rewrite Rabs_R0; lra|ring]|].
+  split; [intros x y; exists 0%R; split; [rewrite Rabs_R0; lra|ring]|].
+  do 3 eexists. cbn. reflexivity.
+Qed.
+
+(* the rounding floor of the complex entry, any function: the complex subtraction rounds each part once, the complex division by
+   (delta, 0) -- den = delta delta + 0 0, (re z delta + im z 0) / den, (im z delta - re z 0) / den -- five more times:
+   each part of J_ij is the exact quotient of the returned parts up to gam 6 = 6u / (1 - 6u).  Ar + i Ai, Br + i Bi = the exact values
+   of f_i at the two call points, known to absolute errors ea, eb in each part *)
+Theorem jacobian_rounding_floor_C : forall (u : R), (0 <= u < 1)%R ->
+  forall (fadd fsub fmul fdiv : R -> R -> R) (fsqrt : R -> R),
+  (forall x y : R, exists e : R, (Rabs e <= u)%R /\ fadd x y = ((x + y) * (1 + e))%R) ->
+  (forall x y : R, exists e : R, (Rabs e <= u)%R /\ fsub x y = ((x - y) * (1 + e))%R) ->
+  (forall x y : R, exists e : R, (Rabs e <= u)%R /\ fmul x y = (x * y * (1 + e))%R) ->
+  (forall x y : R, y <> 0%R -> exists e : R, (Rabs e <= u)%R /\ fdiv x y = (x / y * (1 + e))%R) ->
+  forall (F : list (Complex.cplx (RoundModel.ARm fadd fsub fmul fdiv)) -> res (list (Complex.cplx (RoundModel.ARm fadd fsub fmul fdiv)))) (x : list (Complex.cplx (RoundModel.ARm fadd fsub fmul fdiv))) (d : R) (J : matrix (NA (NCplx (JacExactRoundC.SARm fadd fsub fmul fdiv fsqrt)))) (evs : list (list (Complex.cplx (RoundModel.ARm fadd fsub fmul fdiv)))),
+  jacobian (NCplx (JacExactRoundC.SARm fadd fsub fmul fdiv fsqrt)) F x (emb (NCplx (JacExactRoundC.SARm fadd fsub fmul fdiv fsqrt)) d) = Ok (J, evs) -> d <> 0%R -> (INR 6 * u < 1)%R ->
+  forall (i j : nat) (Ar Ai Br Bi ea eb : R), (i < rows J)%nat -> (j < length x)%nat ->
+  (forall v, F (JacExactGen.call_pt (NCplx (JacExactRoundC.SARm fadd fsub fmul fdiv fsqrt)) x (emb (NCplx (JacExactRoundC.SARm fadd fsub fmul fdiv fsqrt)) d) j) = Ok v ->
+     (Rabs (Complex.re (nth i v (@zero (NA (NCplx (JacExactRoundC.SARm fadd fsub fmul fdiv fsqrt))))) - Ar) <= ea)%R /\ (Rabs (Complex.im (nth i v (@zero (NA (NCplx (JacExactRoundC.SARm fadd fsub fmul fdiv fsqrt))))) - Ai) <= ea)%R) ->
+  (forall v, F x = Ok v -> (Rabs (Complex.re (nth i v (@zero (NA (NCplx (JacExactRoundC.SARm fadd fsub fmul fdiv fsqrt))))) - Br) <= eb)%R /\ (Rabs (Complex.im (nth i v (@zero (NA (NCplx (JacExactRoundC.SARm fadd fsub fmul fdiv fsqrt))))) - Bi) <= eb)%R) ->
+  exists q : (Complex.cplx (RoundModel.ARm fadd fsub fmul fdiv)), mget J i j = Ok q /\
+    (Rabs (Complex.re q - (Ar - Br) / d) <=
+       (RoundModel.gam u 6 * Rabs (Ar - Br) + (1 + RoundModel.gam u 6) * (ea + eb)) / Rabs d)%R /\
+    (Rabs (Complex.im q - (Ai - Bi) / d) <=
+       (RoundModel.gam u 6 * Rabs (Ai - Bi) + (1 + RoundModel.gam u 6) * (ea + eb)) / Rabs d)%R.
+Proof. intros u Hu fadd fsub fmul fdiv fsqrt Ha Hs Hm Hd. exact (JacExactRoundC.jacobian_rounding_floor_C_lemma u Hu fadd fsub fmul fdiv fsqrt Ha Hs Hm Hd). Qed.
+Check jacobian_rounding_floor_C : forall (u : R), (0 <= u < 1)%R ->
+  forall (fadd fsub fmul fdiv : R -> R -> R) (fsqrt : R -> R),
+  (forall x y : R, exists e : R, (Rabs e <= u)%R /\ fadd x y = ((x + y) * (1 + e))%R) ->
+  (forall x y : R, exists e : R, (Rabs e <= u)%R /\ fsub x y = ((x - y) * (1 + e))%R) ->
+  (forall x y : R, exists e : R, (Rabs e <= u)%R /\ fmul x y = (x * y * (1 + e))%R) ->
+  (forall x y : R, y <> 0%R -> exists e : R, (Rabs e <= u)%R /\ fdiv x y = (x / y * (1 + e))%R) ->
+  forall (F : list (Complex.cplx (RoundModel.ARm fadd fsub fmul fdiv)) -> res (list (Complex.cplx (RoundModel.ARm fadd fsub fmul fdiv)))) (x : list (Complex.cplx (RoundModel.ARm fadd fsub fmul fdiv))) (d : R) (J : matrix (NA (NCplx (JacExactRoundC.SARm fadd fsub fmul fdiv fsqrt)))) (evs : list (list (Complex.cplx (RoundModel.ARm fadd fsub fmul fdiv)))),
+  jacobian (NCplx (JacExactRoundC.SARm fadd fsub fmul fdiv fsqrt)) F x (emb (NCplx (JacExactRoundC.SARm fadd fsub fmul fdiv fsqrt)) d) = Ok (J, evs) -> d <> 0%R -> (INR 6 * u < 1)%R ->
+  forall (i j : nat) (Ar Ai Br Bi ea eb : R), (i < rows J)%nat -> (j < length x)%nat ->
+  (forall v, F (JacExactGen.call_pt (NCplx (JacExactRoundC.SARm fadd fsub fmul fdiv fsqrt)) x (emb (NCplx (JacExactRoundC.SARm fadd fsub fmul fdiv fsqrt)) d) j) = Ok v ->
+     (Rabs (Complex.re (nth i v (@zero (NA (NCplx (JacExactRoundC.SARm fadd fsub fmul fdiv fsqrt))))) - Ar) <= ea)%R /\ (Rabs (Complex.im (nth i v (@zero (NA (NCplx (JacExactRoundC.SARm fadd fsub fmul fdiv fsqrt))))) - Ai) <= ea)%R) ->
+  (forall v, F x = Ok v -> (Rabs (Complex.re (nth i v (@zero (NA (NCplx (JacExactRoundC.SARm fadd fsub fmul fdiv fsqrt))))) - Br) <= eb)%R /\ (Rabs (Complex.im (nth i v (@zero (NA (NCplx (JacExactRoundC.SARm fadd fsub fmul fdiv fsqrt))))) - Bi) <= eb)%R) ->
+  exists q : (Complex.cplx (RoundModel.ARm fadd fsub fmul fdiv)), mget J i j = Ok q /\
+    (Rabs (Complex.re q - (Ar - Br) / d) <=
+       (RoundModel.gam u 6 * Rabs (Ar - Br) + (1 + RoundModel.gam u 6) * (ea + eb)) / Rabs d)%R /\
+    (Rabs (Complex.im q - (Ai - Bi) / d) <=
+       (RoundModel.gam u 6 * Rabs (Ai - Bi) + (1 + RoundModel.gam u 6) * (ea + eb)) / Rabs d)%R.
+Print Assumptions jacobian_rounding_floor_C.
+Example jacobian_rounding_floor_C_nonvacuous :
+  (INR 6 * 0 < 1)%R /\
+  (forall x y : R, exists e : R, (Rabs e <= 0)%R /\ Rmult x y = (x * y * (1 + e))%R) /\
+  (forall x y : R, y <> 0%R -> exists e : R, (Rabs e <= 0)%R /\ Rdiv x y = (x / y * (1 + e))%R) /\
+  exists J evs,
+    jacobian (NCplx (JacExactRoundC.SARm Rplus Rminus Rmult Rdiv R_sqrt.sqrt))
+      (fun p => Ok p) [Complex.mkC (A := RoundModel.ARm Rplus Rminus Rmult Rdiv) 1%R 1%R]
+      (emb (NCplx (JacExactRoundC.SARm Rplus Rminus Rmult Rdiv R_sqrt.sqrt)) (1 / 4)%R) = Ok (J, evs) /\ (0 < rows J)%nat.
+Proof.
+  split; [lra|]. split; [intros x y; exists 0%R; split; [rewrite Rabs_R0; lra|ring]|].
+  split; [intros x y Hy; exists 0%R; split; [rewrite Rabs_R0; lra|field; exact Hy]|].
+  do 2 eexists. split; [cbn; reflexivity|]. cbn. lia.
+Qed.
+
+(* ---- the same AT IEEE BINARY64 ITSELF (NReal AF, the instance the correspondence check runs against the Rust code): the standard-model
+   hypotheses are discharged through Flocq's specification of the primitive floats; u64 = 2^-53; "whenever the computed value is finite"
+   (a finite result has finite operands and no overflow happened on the way; + and - have relative error <= u64 even on subnormals) ----
+   state[j] += delta; state[j] -= delta at binary64 *)
+Theorem restore_drift_float : forall x d : PrimFloat.float, ComplexRound.ffinite (PrimFloat.sub (PrimFloat.add x d) d) ->
+  ComplexRound.ffinite x /\ ComplexRound.ffinite d /\ ComplexRound.ffinite (PrimFloat.add x d) /\
+  (Rabs (ComplexRound.FR (PrimFloat.sub (PrimFloat.add x d) d) - ComplexRound.FR x) <=
+    (2 * ComplexRound.u64 + ComplexRound.u64 * ComplexRound.u64) * (Rabs (ComplexRound.FR x) + Rabs (ComplexRound.FR d)))%R.
+Proof. exact JacExactFloatRound.restore_drift_float. Qed.
+Check restore_drift_float : forall x d : PrimFloat.float, ComplexRound.ffinite (PrimFloat.sub (PrimFloat.add x d) d) ->
+  ComplexRound.ffinite x /\ ComplexRound.ffinite d /\ ComplexRound.ffinite (PrimFloat.add x d) /\
+  (Rabs (ComplexRound.FR (PrimFloat.sub (PrimFloat.add x d) d) - ComplexRound.FR x) <=
+    (2 * ComplexRound.u64 + ComplexRound.u64 * ComplexRound.u64) * (Rabs (ComplexRound.FR x) + Rabs (ComplexRound.FR d)))%R.
+Print Assumptions restore_drift_float.
+Example restore_drift_float_nonvacuous :
+  ComplexRound.ffinite (PrimFloat.sub (PrimFloat.add (nth 0 JacExactFloat.exj_x2 (@zero FloatInst.AF)) JacExactFloat.exj_d2) JacExactFloat.exj_d2) /\
+  (* ... and the drift is real: x_0 = 0.9999999999, delta = 1e-8 comes back one ulp smaller *)
+  PrimFloat.ltb (PrimFloat.sub (PrimFloat.add (nth 0 JacExactFloat.exj_x2 (@zero FloatInst.AF)) JacExactFloat.exj_d2) JacExactFloat.exj_d2)
+                (nth 0 JacExactFloat.exj_x2 (@zero FloatInst.AF)) = true.
+Proof. split; [apply ComplexRound.ffinite_SF|]; vm_compute; reflexivity. Qed.
+
+(* all columns of Mat64::jacobian at binary64, any closure: if the state the loop ends with is finite, the j-th call was made within
+   u |x_j + delta| (coordinate j), (2u + u^2)(|x_k| + |delta|) (k < j), 0 (k > j) of x + delta e_j *)
+Theorem jacobian_call_points_drift_float : forall (F : list PrimFloat.float -> res (list PrimFloat.float)) (x : list PrimFloat.float) (d : PrimFloat.float)
+    (st : list PrimFloat.float) (J : matrix FloatInst.AF) (evs : list (list PrimFloat.float)),
+  jacobian_tr (NReal FloatInst.AF) F x d = Ok (st, J, evs) ->
+  (forall k, (k < length x)%nat -> ComplexRound.ffinite (nth k st (@zero FloatInst.AF))) ->
+  evs = x :: map (JacExactGen.call_pt (NReal FloatInst.AF) x d) (seq 0 (length x)) /\ length st = length x /\
+  (forall k, (k < length x)%nat -> ComplexRound.ffinite (nth k x (@zero FloatInst.AF)) /\ ComplexRound.ffinite (PrimFloat.add (nth k x (@zero FloatInst.AF)) d)) /\
+  (forall j k, (j < length x)%nat -> (k < length x)%nat ->
+     (Rabs (ComplexRound.FR (nth k (JacExactGen.call_pt (NReal FloatInst.AF) x d j) (@zero FloatInst.AF)) -
+            (if (k =? j)%nat then ComplexRound.FR (nth j x (@zero FloatInst.AF)) + ComplexRound.FR d else ComplexRound.FR (nth k x (@zero FloatInst.AF)))) <=
+       (if (k =? j)%nat then ComplexRound.u64 * Rabs (ComplexRound.FR (nth k x (@zero FloatInst.AF)) + ComplexRound.FR d)
+        else if (k <? j)%nat then (2 * ComplexRound.u64 + ComplexRound.u64 * ComplexRound.u64) * (Rabs (ComplexRound.FR (nth k x (@zero FloatInst.AF))) + Rabs (ComplexRound.FR d)) else 0))%R) /\
+  (forall k, (k < length x)%nat ->
+     (Rabs (ComplexRound.FR (nth k st (@zero FloatInst.AF)) - ComplexRound.FR (nth k x (@zero FloatInst.AF))) <=
+       (2 * ComplexRound.u64 + ComplexRound.u64 * ComplexRound.u64) * (Rabs (ComplexRound.FR (nth k x (@zero FloatInst.AF))) + Rabs (ComplexRound.FR d)))%R).
+Proof. exact JacExactFloatRound.jacobian_call_points_drift_float_lemma. Qed.
+Check jacobian_call_points_drift_float : forall (F : list PrimFloat.float -> res (list PrimFloat.float)) (x : list PrimFloat.float) (d : PrimFloat.float)
+    (st : list PrimFloat.float) (J : matrix FloatInst.AF) (evs : list (list PrimFloat.float)),
+  jacobian_tr (NReal FloatInst.AF) F x d = Ok (st, J, evs) ->
+  (forall k, (k < length x)%nat -> ComplexRound.ffinite (nth k st (@zero FloatInst.AF))) ->
+  evs = x :: map (JacExactGen.call_pt (NReal FloatInst.AF) x d) (seq 0 (length x)) /\ length st = length x /\
+  (forall k, (k < length x)%nat -> ComplexRound.ffinite (nth k x (@zero FloatInst.AF)) /\ ComplexRound.ffinite (PrimFloat.add (nth k x (@zero FloatInst.AF)) d)) /\
+  (forall j k, (j < length x)%nat -> (k < length x)%nat ->
+     (Rabs (ComplexRound.FR (nth k (JacExactGen.call_pt (NReal FloatInst.AF) x d j) (@zero FloatInst.AF)) -
+            (if (k =? j)%nat then ComplexRound.FR (nth j x (@zero FloatInst.AF)) + ComplexRound.FR d else ComplexRound.FR (nth k x (@zero FloatInst.AF)))) <=
+       (if (k =? j)%nat then ComplexRound.u64 * Rabs (ComplexRound.FR (nth k x (@zero FloatInst.AF)) + ComplexRound.FR d)
+        else if (k <? j)%nat then (2 * ComplexRound.u64 + ComplexRound.u64 * ComplexRound.u64) * (Rabs (ComplexRound.FR (nth k x (@zero FloatInst.AF))) + Rabs (ComplexRound.FR d)) else 0))%R) /\
+  (forall k, (k < length x)%nat ->
+     (Rabs (ComplexRound.FR (nth k st (@zero FloatInst.AF)) - ComplexRound.FR (nth k x (@zero FloatInst.AF))) <=
+       (2 * ComplexRound.u64 + ComplexRound.u64 * ComplexRound.u64) * (Rabs (ComplexRound.FR (nth k x (@zero FloatInst.AF))) + Rabs (ComplexRound.FR d)))%R).
+Print Assumptions jacobian_call_points_drift_float.
+Example jacobian_call_points_drift_float_nonvacuous :
+  jacobian_tr (NReal FloatInst.AF) JacExactFloatRound.exf_F JacExactFloatRound.exf_x JacExactFloatRound.exf_d =
+    Ok ([@one FloatInst.AF], JacExactFloatRound.exf_J, [[@one FloatInst.AF]; [JacExactFloatRound.exf_p0]]) /\
+  (forall k, (k < length JacExactFloatRound.exf_x)%nat -> ComplexRound.ffinite (nth k [@one FloatInst.AF] (@zero FloatInst.AF))).
+Proof. split; [exact JacExactFloatRound.exf_run|exact (proj1 JacExactFloatRound.exf_conditions)]. Qed.
+
+(* the rounding floor of an entry of Mat64::jacobian at binary64, any closure F: q = (f^_i(p_j) (-) f^_i(x)) (/) delta on the values the closure
+   RETURNED; A, B0 = the exact values they approximate with relative error eps (eps = 0, A = FR f^_i(p_j), B0 = FR f^_i(x): the quotient
+   of the returned values).  no_underflow v := v = 0 \/ 2^-1022 <= |v| *)
+Theorem jacobian_entry_floor_float : forall (F : list PrimFloat.float -> res (list PrimFloat.float)) (x : list PrimFloat.float) (d : PrimFloat.float)
+    (J : matrix FloatInst.AF) (evs : list (list PrimFloat.float)),
+  jacobian (NReal FloatInst.AF) F x d = Ok (J, evs) ->
+  exists f0, F x = Ok f0 /\ rows J = length f0 /\ cols J = length x /\
+  forall i j, (i < length f0)%nat -> (j < length x)%nat ->
+    exists fj q, F (JacExactGen.call_pt (NReal FloatInst.AF) x d j) = Ok fj /\ mget J i j = Ok q /\
+      q = PrimFloat.div (PrimFloat.sub (nth i fj (@zero FloatInst.AF)) (nth i f0 (@zero FloatInst.AF))) d /\
+      forall (A B0 eps : R),
+        ComplexRound.ffinite q -> ComplexRound.FR d <> 0%R ->
+        ComplexRound.no_underflow (ComplexRound.FR (PrimFloat.sub (nth i fj (@zero FloatInst.AF)) (nth i f0 (@zero FloatInst.AF))) / ComplexRound.FR d)%R -> (0 <= eps)%R ->
+        (Rabs (ComplexRound.FR (nth i fj (@zero FloatInst.AF)) - A) <= eps * Rabs A)%R -> (Rabs (ComplexRound.FR (nth i f0 (@zero FloatInst.AF)) - B0) <= eps * Rabs B0)%R ->
+        (Rabs (ComplexRound.FR q - (A - B0) / ComplexRound.FR d) <=
+          ((2 * ComplexRound.u64 + ComplexRound.u64 * ComplexRound.u64) * Rabs (A - B0) + eps * ((1 + ComplexRound.u64) * (1 + ComplexRound.u64)) * (Rabs A + Rabs B0)) / Rabs (ComplexRound.FR d))%R.
+Proof. exact JacExactFloatRound.jacobian_entry_floor_float_lemma. Qed.
+Check jacobian_entry_floor_float : forall (F : list PrimFloat.float -> res (list PrimFloat.float)) (x : list PrimFloat.float) (d : PrimFloat.float)
+    (J : matrix FloatInst.AF) (evs : list (list PrimFloat.float)),
+  jacobian (NReal FloatInst.AF) F x d = Ok (J, evs) ->
+  exists f0, F x = Ok f0 /\ rows J = length f0 /\ cols J = length x /\
+  forall i j, (i < length f0)%nat -> (j < length x)%nat ->
+    exists fj q, F (JacExactGen.call_pt (NReal FloatInst.AF) x d j) = Ok fj /\ mget J i j = Ok q /\
+      q = PrimFloat.div (PrimFloat.sub (nth i fj (@zero FloatInst.AF)) (nth i f0 (@zero FloatInst.AF))) d /\
+      forall (A B0 eps : R),
+        ComplexRound.ffinite q -> ComplexRound.FR d <> 0%R ->
+        ComplexRound.no_underflow (ComplexRound.FR (PrimFloat.sub (nth i fj (@zero FloatInst.AF)) (nth i f0 (@zero FloatInst.AF))) / ComplexRound.FR d)%R -> (0 <= eps)%R ->
+        (Rabs (ComplexRound.FR (nth i fj (@zero FloatInst.AF)) - A) <= eps * Rabs A)%R -> (Rabs (ComplexRound.FR (nth i f0 (@zero FloatInst.AF)) - B0) <= eps * Rabs B0)%R ->
+        (Rabs (ComplexRound.FR q - (A - B0) / ComplexRound.FR d) <=
+          ((2 * ComplexRound.u64 + ComplexRound.u64 * ComplexRound.u64) * Rabs (A - B0) + eps * ((1 + ComplexRound.u64) * (1 + ComplexRound.u64)) * (Rabs A + Rabs B0)) / Rabs (ComplexRound.FR d))%R.
+Print Assumptions jacobian_entry_floor_float.
+(* the identity on R^1 at x = 1, delta = 0.1 (not dyadic): the entry is 1.0000000000000009 > 1 *)
+Example jacobian_entry_floor_float_nonvacuous :
+  jacobian (NReal FloatInst.AF) JacExactFloatRound.exf_F JacExactFloatRound.exf_x JacExactFloatRound.exf_d =
+    Ok (JacExactFloatRound.exf_J, [[@one FloatInst.AF]; [JacExactFloatRound.exf_p0]]) /\
+  ComplexRound.ffinite (PrimFloat.div (PrimFloat.sub JacExactFloatRound.exf_p0 (@one FloatInst.AF)) JacExactFloatRound.exf_d) /\
+  ComplexRound.FR JacExactFloatRound.exf_d <> 0%R /\
+  ComplexRound.no_underflow (ComplexRound.FR (PrimFloat.sub JacExactFloatRound.exf_p0 (@one FloatInst.AF)) / ComplexRound.FR JacExactFloatRound.exf_d)%R /\
+  PrimFloat.ltb (@one FloatInst.AF) (PrimFloat.div (PrimFloat.sub JacExactFloatRound.exf_p0 (@one FloatInst.AF)) JacExactFloatRound.exf_d) = true.
+Proof.
+  split; [unfold jacobian; rewrite JacExactFloatRound.exf_run; reflexivity|]. exact (proj2 JacExactFloatRound.exf_conditions).
+Qed.
+
+(* TOTAL error of an entry of Mat64::jacobian at binary64 against the partial derivative g1 0 of the exact function f_i at the real point
+   FR x: truncation + rounding floor + drift, exactly as jacobian_total_error, with every rounding hypothesis discharged *)
+Theorem jacobian_total_error_float : forall (F : list PrimFloat.float -> res (list PrimFloat.float)) (x : list PrimFloat.float) (d : PrimFloat.float)
+    (J : matrix FloatInst.AF) (evs : list (list PrimFloat.float)),
+  jacobian (NReal FloatInst.AF) F x d = Ok (J, evs) ->
+  exists f0, F x = Ok f0 /\ rows J = length f0 /\ cols J = length x /\
+  forall i j, (i < length f0)%nat -> (j < length x)%nat ->
+    exists fj q, F (JacExactGen.call_pt (NReal FloatInst.AF) x d j) = Ok fj /\ mget J i j = Ok q /\
+      forall (fi : list R -> R) (eps Dr : R) (g1 g2 : R -> R) (B : R),
+        ComplexRound.ffinite q -> (ComplexRound.FR d) <> 0%R ->
+        ComplexRound.no_underflow (ComplexRound.FR (PrimFloat.sub (nth i fj (@zero FloatInst.AF)) (nth i f0 (@zero FloatInst.AF))) / (ComplexRound.FR d))%R -> (0 <= eps)%R ->
+        (Rabs (ComplexRound.FR (nth i fj (@zero FloatInst.AF)) - fi (map ComplexRound.FR (JacExactGen.call_pt (NReal FloatInst.AF) x d j))) <= eps * Rabs (fi (map ComplexRound.FR (JacExactGen.call_pt (NReal FloatInst.AF) x d j))))%R ->
+        (Rabs (ComplexRound.FR (nth i f0 (@zero FloatInst.AF)) - fi (map ComplexRound.FR x)) <= eps * Rabs (fi (map ComplexRound.FR x)))%R ->
+        (forall t, (Rmin 0 (ComplexRound.FR d) <= t <= Rmax 0 (ComplexRound.FR d))%R ->
+           derivable_pt_lim (fun t => fi (upd_list (map ComplexRound.FR x) j (nth j (map ComplexRound.FR x) 0 + t)%R)) t (g1 t)) ->
+        (forall t, (Rmin 0 (ComplexRound.FR d) <= t <= Rmax 0 (ComplexRound.FR d))%R -> derivable_pt_lim g1 t (g2 t)) ->
+        (forall t, (Rmin 0 (ComplexRound.FR d) <= t <= Rmax 0 (ComplexRound.FR d))%R -> (Rabs (g2 t) <= B)%R) ->
+        (Rabs (fi (map ComplexRound.FR (JacExactGen.call_pt (NReal FloatInst.AF) x d j)) - fi (upd_list (map ComplexRound.FR x) j (nth j (map ComplexRound.FR x) 0 + (ComplexRound.FR d))%R)) <= Dr)%R ->
+        (Rabs (ComplexRound.FR q - g1 0) <=
+          Rabs (ComplexRound.FR d) / 2 * B +
+          ((2 * ComplexRound.u64 + ComplexRound.u64 * ComplexRound.u64) * Rabs (fi (map ComplexRound.FR (JacExactGen.call_pt (NReal FloatInst.AF) x d j)) - fi (map ComplexRound.FR x)) +
+           eps * ((1 + ComplexRound.u64) * (1 + ComplexRound.u64)) * (Rabs (fi (map ComplexRound.FR (JacExactGen.call_pt (NReal FloatInst.AF) x d j))) + Rabs (fi (map ComplexRound.FR x)))) / Rabs (ComplexRound.FR d) +
+          Dr / Rabs (ComplexRound.FR d))%R.
+Proof. exact JacExactFloatRound.jacobian_total_error_float_lemma. Qed.
+Check jacobian_total_error_float : forall (F : list PrimFloat.float -> res (list PrimFloat.float)) (x : list PrimFloat.float) (d : PrimFloat.float)
+    (J : matrix FloatInst.AF) (evs : list (list PrimFloat.float)),
+  jacobian (NReal FloatInst.AF) F x d = Ok (J, evs) ->
+  exists f0, F x = Ok f0 /\ rows J = length f0 /\ cols J = length x /\
+  forall i j, (i < length f0)%nat -> (j < length x)%nat ->
+    exists fj q, F (JacExactGen.call_pt (NReal FloatInst.AF) x d j) = Ok fj /\ mget J i j = Ok q /\
+      forall (fi : list R -> R) (eps Dr : R) (g1 g2 : R -> R) (B : R),
+        ComplexRound.ffinite q -> (ComplexRound.FR d) <> 0%R ->
+        ComplexRound.no_underflow (ComplexRound.FR (PrimFloat.sub (nth i fj (@zero FloatInst.AF)) (nth i f0 (@zero FloatInst.AF))) / (ComplexRound.FR d))%R -> (0 <= eps)%R ->
+        (Rabs (ComplexRound.FR (nth i fj (@zero FloatInst.AF)) - fi (map ComplexRound.FR (JacExactGen.call_pt (NReal FloatInst.AF) x d j))) <= eps * Rabs (fi (map ComplexRound.FR (JacExactGen.call_pt (NReal FloatInst.AF) x d j))))%R ->
+        (Rabs (ComplexRound.FR (nth i f0 (@zero FloatInst.AF)) - fi (map ComplexRound.FR x)) <= eps * Rabs (fi (map ComplexRound.FR x)))%R ->
+        (forall t, (Rmin 0 (ComplexRound.FR d) <= t <= Rmax 0 (ComplexRound.FR d))%R ->
+           derivable_pt_lim (fun t => fi (upd_list (map ComplexRound.FR x) j (nth j (map ComplexRound.FR x) 0 + t)%R)) t (g1 t)) ->
+        (forall t, (Rmin 0 (ComplexRound.FR d) <= t <= Rmax 0 (ComplexRound.FR d))%R -> derivable_pt_lim g1 t (g2 t)) ->
+        (forall t, (Rmin 0 (ComplexRound.FR d) <= t <= Rmax 0 (ComplexRound.FR d))%R -> (Rabs (g2 t) <= B)%R) ->
+        (Rabs (fi (map ComplexRound.FR (JacExactGen.call_pt (NReal FloatInst.AF) x d j)) - fi (upd_list (map ComplexRound.FR x) j (nth j (map ComplexRound.FR x) 0 + (ComplexRound.FR d))%R)) <= Dr)%R ->
+        (Rabs (ComplexRound.FR q - g1 0) <=
+          Rabs (ComplexRound.FR d) / 2 * B +
+          ((2 * ComplexRound.u64 + ComplexRound.u64 * ComplexRound.u64) * Rabs (fi (map ComplexRound.FR (JacExactGen.call_pt (NReal FloatInst.AF) x d j)) - fi (map ComplexRound.FR x)) +
+           eps * ((1 + ComplexRound.u64) * (1 + ComplexRound.u64)) * (Rabs (fi (map ComplexRound.FR (JacExactGen.call_pt (NReal FloatInst.AF) x d j))) + Rabs (fi (map ComplexRound.FR x)))) / Rabs (ComplexRound.FR d) +
+          Dr / Rabs (ComplexRound.FR d))%R.
+Print Assumptions jacobian_total_error_float.
+(* the run of jacobian_entry_floor_float_nonvacuous with f_0 = first coordinate, eps = 0, g(t) = 1 + t, B = 0, Dr = u |1 + delta| *)
+Example jacobian_total_error_float_nonvacuous :
+  (forall t, derivable_pt_lim (fun t => nth 0 (upd_list (map ComplexRound.FR JacExactFloatRound.exf_x) 0
+                                                  (nth 0 (map ComplexRound.FR JacExactFloatRound.exf_x) 0 + t)%R) 0%R) t 1%R) /\
+  (forall t, derivable_pt_lim (fun _ : R => 1%R) t 0%R) /\ (Rabs 0 <= 0)%R /\
+  (Rabs (nth 0 (map ComplexRound.FR (JacExactGen.call_pt (NReal FloatInst.AF) JacExactFloatRound.exf_x JacExactFloatRound.exf_d 0)) 0 -
+         nth 0 (upd_list (map ComplexRound.FR JacExactFloatRound.exf_x) 0
+                  (nth 0 (map ComplexRound.FR JacExactFloatRound.exf_x) 0 + ComplexRound.FR JacExactFloatRound.exf_d)%R) 0) <=
+   ComplexRound.u64 * Rabs (ComplexRound.FR (@one FloatInst.AF) + ComplexRound.FR JacExactFloatRound.exf_d))%R.
+Proof. exact JacExactFloatRound.exf_total_conditions. Qed.
+
+(* the drift term Dr at binary64 from coordinate-wise Lipschitz constants of f_i (here over all points of the dimension of x) *)
+Theorem jacobian_drift_lipschitz_float : forall (F : list PrimFloat.float -> res (list PrimFloat.float)) (x : list PrimFloat.float) (d : PrimFloat.float)
+    (st : list PrimFloat.float) (J : matrix FloatInst.AF) (evs : list (list PrimFloat.float)) (j : nat) (fi : list R -> R) (L : nat -> R),
+  jacobian_tr (NReal FloatInst.AF) F x d = Ok (st, J, evs) ->
+  (forall k, (k < length x)%nat -> ComplexRound.ffinite (nth k st (@zero FloatInst.AF))) ->
+  (j < length x)%nat -> (forall k, (0 <= L k)%R) ->
+  (forall p, length p = length x ->
+     (Rabs (fi p - fi (upd_list (map ComplexRound.FR x) j (nth j (map ComplexRound.FR x) 0 + (ComplexRound.FR d))%R)) <=
+       RoundModel.Rsum (length x) (fun k => L k * Rabs (nth k p 0 - nth k (upd_list (map ComplexRound.FR x) j (nth j (map ComplexRound.FR x) 0 + (ComplexRound.FR d))%R) 0)))%R) ->
+  (Rabs (fi (map ComplexRound.FR (JacExactGen.call_pt (NReal FloatInst.AF) x d j)) - fi (upd_list (map ComplexRound.FR x) j (nth j (map ComplexRound.FR x) 0 + (ComplexRound.FR d))%R)) <=
+    RoundModel.Rsum (length x)
+      (fun k => L k * (if (k =? j)%nat then ComplexRound.u64 * Rabs (nth k (map ComplexRound.FR x) 0 + (ComplexRound.FR d))
+                       else if (k <? j)%nat then (2 * ComplexRound.u64 + ComplexRound.u64 * ComplexRound.u64) * (Rabs (nth k (map ComplexRound.FR x) 0) + Rabs (ComplexRound.FR d)) else 0)))%R.
+Proof. exact JacExactFloatRound.drift_lipschitz_float_lemma. Qed.
+Check jacobian_drift_lipschitz_float : forall (F : list PrimFloat.float -> res (list PrimFloat.float)) (x : list PrimFloat.float) (d : PrimFloat.float)
+    (st : list PrimFloat.float) (J : matrix FloatInst.AF) (evs : list (list PrimFloat.float)) (j : nat) (fi : list R -> R) (L : nat -> R),
+  jacobian_tr (NReal FloatInst.AF) F x d = Ok (st, J, evs) ->
+  (forall k, (k < length x)%nat -> ComplexRound.ffinite (nth k st (@zero FloatInst.AF))) ->
+  (j < length x)%nat -> (forall k, (0 <= L k)%R) ->
+  (forall p, length p = length x ->
+     (Rabs (fi p - fi (upd_list (map ComplexRound.FR x) j (nth j (map ComplexRound.FR x) 0 + (ComplexRound.FR d))%R)) <=
+       RoundModel.Rsum (length x) (fun k => L k * Rabs (nth k p 0 - nth k (upd_list (map ComplexRound.FR x) j (nth j (map ComplexRound.FR x) 0 + (ComplexRound.FR d))%R) 0)))%R) ->
+  (Rabs (fi (map ComplexRound.FR (JacExactGen.call_pt (NReal FloatInst.AF) x d j)) - fi (upd_list (map ComplexRound.FR x) j (nth j (map ComplexRound.FR x) 0 + (ComplexRound.FR d))%R)) <=
+    RoundModel.Rsum (length x)
+      (fun k => L k * (if (k =? j)%nat then ComplexRound.u64 * Rabs (nth k (map ComplexRound.FR x) 0 + (ComplexRound.FR d))
+                       else if (k <? j)%nat then (2 * ComplexRound.u64 + ComplexRound.u64 * ComplexRound.u64) * (Rabs (nth k (map ComplexRound.FR x) 0) + Rabs (ComplexRound.FR d)) else 0)))%R.
+Print Assumptions jacobian_drift_lipschitz_float.
+(* non-vacuity: jacobian_call_points_drift_float_nonvacuous (the run, finite final state) and jacobian_drift_lipschitz_nonvacuous
+   (a function with Lipschitz constants 3, 2) *)
+
+(* Matrix::<Cmplx>::jacobian_cmplx at binary64, any closure, finite final state: the IMAGINARY parts keep their value at every call and
+   at the end ((y + 0) - 0 is exact in IEEE arithmetic; only the sign of a zero can change), the REAL parts drift as in Mat64::jacobian *)
+Theorem jacobian_call_points_drift_C_float : forall (F : list (Complex.cplx FloatInst.AF) -> res (list (Complex.cplx FloatInst.AF))) (x : list (Complex.cplx FloatInst.AF)) (d : PrimFloat.float)
+    (st : list (Complex.cplx FloatInst.AF)) (J : matrix (NA (NCplx FloatInst.SAF))) (evs : list (list (Complex.cplx FloatInst.AF))),
+  jacobian_tr (NCplx FloatInst.SAF) F x (emb (NCplx FloatInst.SAF) d) = Ok (st, J, evs) ->
+  (forall k, (k < length x)%nat ->
+     ComplexRound.ffinite (Complex.re (nth k st (@zero (Complex.CArith FloatInst.SAF)))) /\ ComplexRound.ffinite (Complex.im (nth k st (@zero (Complex.CArith FloatInst.SAF))))) ->
+  evs = x :: map (JacExactGen.call_pt (NCplx FloatInst.SAF) x (emb (NCplx FloatInst.SAF) d)) (seq 0 (length x)) /\ length st = length x /\
+  (forall k, (k < length x)%nat ->
+     ComplexRound.ffinite (Complex.re (nth k x (@zero (Complex.CArith FloatInst.SAF)))) /\ ComplexRound.ffinite (Complex.im (nth k x (@zero (Complex.CArith FloatInst.SAF))))) /\
+  (forall j k, (j < length x)%nat -> (k < length x)%nat ->
+     ComplexRound.FR (Complex.im (nth k (JacExactGen.call_pt (NCplx FloatInst.SAF) x (emb (NCplx FloatInst.SAF) d) j) (@zero (Complex.CArith FloatInst.SAF)))) = ComplexRound.FR (Complex.im (nth k x (@zero (Complex.CArith FloatInst.SAF)))) /\
+     (Rabs (ComplexRound.FR (Complex.re (nth k (JacExactGen.call_pt (NCplx FloatInst.SAF) x (emb (NCplx FloatInst.SAF) d) j) (@zero (Complex.CArith FloatInst.SAF)))) -
+            (if (k =? j)%nat then ComplexRound.FR (Complex.re (nth j x (@zero (Complex.CArith FloatInst.SAF)))) + ComplexRound.FR d
+             else ComplexRound.FR (Complex.re (nth k x (@zero (Complex.CArith FloatInst.SAF)))))) <=
+       (if (k =? j)%nat then ComplexRound.u64 * Rabs (ComplexRound.FR (Complex.re (nth k x (@zero (Complex.CArith FloatInst.SAF)))) + ComplexRound.FR d)
+        else if (k <? j)%nat
+             then (2 * ComplexRound.u64 + ComplexRound.u64 * ComplexRound.u64) * (Rabs (ComplexRound.FR (Complex.re (nth k x (@zero (Complex.CArith FloatInst.SAF))))) + Rabs (ComplexRound.FR d)) else 0))%R) /\
+  (forall k, (k < length x)%nat ->
+     ComplexRound.FR (Complex.im (nth k st (@zero (Complex.CArith FloatInst.SAF)))) = ComplexRound.FR (Complex.im (nth k x (@zero (Complex.CArith FloatInst.SAF)))) /\
+     (Rabs (ComplexRound.FR (Complex.re (nth k st (@zero (Complex.CArith FloatInst.SAF)))) - ComplexRound.FR (Complex.re (nth k x (@zero (Complex.CArith FloatInst.SAF))))) <=
+       (2 * ComplexRound.u64 + ComplexRound.u64 * ComplexRound.u64) * (Rabs (ComplexRound.FR (Complex.re (nth k x (@zero (Complex.CArith FloatInst.SAF))))) + Rabs (ComplexRound.FR d)))%R).
+Proof. exact JacExactFloatRoundC.jacobian_call_points_drift_C_float_lemma. Qed.
+Check jacobian_call_points_drift_C_float : forall (F : list (Complex.cplx FloatInst.AF) -> res (list (Complex.cplx FloatInst.AF))) (x : list (Complex.cplx FloatInst.AF)) (d : PrimFloat.float)
+    (st : list (Complex.cplx FloatInst.AF)) (J : matrix (NA (NCplx FloatInst.SAF))) (evs : list (list (Complex.cplx FloatInst.AF))),
+  jacobian_tr (NCplx FloatInst.SAF) F x (emb (NCplx FloatInst.SAF) d) = Ok (st, J, evs) ->
+  (forall k, (k < length x)%nat ->
+     ComplexRound.ffinite (Complex.re (nth k st (@zero (Complex.CArith FloatInst.SAF)))) /\ ComplexRound.ffinite (Complex.im (nth k st (@zero (Complex.CArith FloatInst.SAF))))) ->
+  evs = x :: map (JacExactGen.call_pt (NCplx FloatInst.SAF) x (emb (NCplx FloatInst.SAF) d)) (seq 0 (length x)) /\ length st = length x /\
+  (forall k, (k < length x)%nat ->
+     ComplexRound.ffinite (Complex.re (nth k x (@zero (Complex.CArith FloatInst.SAF)))) /\ ComplexRound.ffinite (Complex.im (nth k x (@zero (Complex.CArith FloatInst.SAF))))) /\
+  (forall j k, (j < length x)%nat -> (k < length x)%nat ->
+     ComplexRound.FR (Complex.im (nth k (JacExactGen.call_pt (NCplx FloatInst.SAF) x (emb (NCplx FloatInst.SAF) d) j) (@zero (Complex.CArith FloatInst.SAF)))) = ComplexRound.FR (Complex.im (nth k x (@zero (Complex.CArith FloatInst.SAF)))) /\
+     (Rabs (ComplexRound.FR (Complex.re (nth k (JacExactGen.call_pt (NCplx FloatInst.SAF) x (emb (NCplx FloatInst.SAF) d) j) (@zero (Complex.CArith FloatInst.SAF)))) -
+            (if (k =? j)%nat then ComplexRound.FR (Complex.re (nth j x (@zero (Complex.CArith FloatInst.SAF)))) + ComplexRound.FR d
+             else ComplexRound.FR (Complex.re (nth k x (@zero (Complex.CArith FloatInst.SAF)))))) <=
+       (if (k =? j)%nat then ComplexRound.u64 * Rabs (ComplexRound.FR (Complex.re (nth k x (@zero (Complex.CArith FloatInst.SAF)))) + ComplexRound.FR d)
+        else if (k <? j)%nat
+             then (2 * ComplexRound.u64 + ComplexRound.u64 * ComplexRound.u64) * (Rabs (ComplexRound.FR (Complex.re (nth k x (@zero (Complex.CArith FloatInst.SAF))))) + Rabs (ComplexRound.FR d)) else 0))%R) /\
+  (forall k, (k < length x)%nat ->
+     ComplexRound.FR (Complex.im (nth k st (@zero (Complex.CArith FloatInst.SAF)))) = ComplexRound.FR (Complex.im (nth k x (@zero (Complex.CArith FloatInst.SAF)))) /\
+     (Rabs (ComplexRound.FR (Complex.re (nth k st (@zero (Complex.CArith FloatInst.SAF)))) - ComplexRound.FR (Complex.re (nth k x (@zero (Complex.CArith FloatInst.SAF))))) <=
+       (2 * ComplexRound.u64 + ComplexRound.u64 * ComplexRound.u64) * (Rabs (ComplexRound.FR (Complex.re (nth k x (@zero (Complex.CArith FloatInst.SAF))))) + Rabs (ComplexRound.FR d)))%R).
+Print Assumptions jacobian_call_points_drift_C_float.
+Example jacobian_call_points_drift_C_float_nonvacuous :
+  exists st J evs,
+    jacobian_tr (NCplx FloatInst.SAF) (fun p => Ok (aff (NCplx FloatInst.SAF) JacExactFloatC.exc_M JacExactFloatC.exc_c p)) JacExactFloatC.exc_x2
+                (emb (NCplx FloatInst.SAF) JacExactFloat.exj_d2) = Ok (st, J, evs) /\
+    forall k, (k < length JacExactFloatC.exc_x2)%nat ->
+      ComplexRound.ffinite (Complex.re (nth k st (@zero (Complex.CArith FloatInst.SAF)))) /\ ComplexRound.ffinite (Complex.im (nth k st (@zero (Complex.CArith FloatInst.SAF)))).
+Proof. exact JacExactFloatRoundC.excf_conditions. Qed.
+
+(* the rounding floor of an entry of Matrix::<Cmplx>::jacobian_cmplx at binary64, any closure: q = (f^(p_j) - f^(x)) / (delta, 0) with the
+   model's complex float operations.  If both parts of q are finite, the denominator delta delta + 0 0 is finite and non-zero and neither
+   the three products nor the two quotients underflow, each part of q is the exact quotient of the returned parts up to gam 6,
+   u = 2^-53 (jacobian_rounding_floor_C with every rounding hypothesis discharged) *)
+Theorem jacobian_entry_floor_C_float : forall (F : list (Complex.cplx FloatInst.AF) -> res (list (Complex.cplx FloatInst.AF))) (x : list (Complex.cplx FloatInst.AF)) (d : PrimFloat.float) (J : matrix (NA (NCplx FloatInst.SAF))) (evs : list (list (Complex.cplx FloatInst.AF))),
+  jacobian (NCplx FloatInst.SAF) F x (emb (NCplx FloatInst.SAF) d) = Ok (J, evs) ->
+  exists f0, F x = Ok f0 /\ rows J = length f0 /\ cols J = length x /\
+  forall i j, (i < length f0)%nat -> (j < length x)%nat ->
+    exists fj q, F (JacExactGen.call_pt (NCplx FloatInst.SAF) x (emb (NCplx FloatInst.SAF) d) j) = Ok fj /\ mget J i j = Ok q /\
+      Complex.cdiv (Complex.csub (nth i fj (@zero (Complex.CArith FloatInst.SAF))) (nth i f0 (@zero (Complex.CArith FloatInst.SAF)))) (emb (NCplx FloatInst.SAF) d) = Ok q /\
+      forall (Ar Ai Br Bi ea eb : R),
+        ComplexRound.ffinite (Complex.re q) -> ComplexRound.ffinite (Complex.im q) -> ComplexRound.FR (PrimFloat.add (PrimFloat.mul d d) (PrimFloat.mul (@zero FloatInst.AF) (@zero FloatInst.AF))) <> 0%R ->
+        ComplexRound.no_underflow (ComplexRound.FR (Complex.re (Complex.csub (nth i fj (@zero (Complex.CArith FloatInst.SAF))) (nth i f0 (@zero (Complex.CArith FloatInst.SAF))))) * ComplexRound.FR d)%R ->
+        ComplexRound.no_underflow (ComplexRound.FR (Complex.im (Complex.csub (nth i fj (@zero (Complex.CArith FloatInst.SAF))) (nth i f0 (@zero (Complex.CArith FloatInst.SAF))))) * ComplexRound.FR d)%R ->
+        ComplexRound.no_underflow (ComplexRound.FR d * ComplexRound.FR d)%R ->
+        ComplexRound.no_underflow
+          (ComplexRound.FR (PrimFloat.add (PrimFloat.mul (Complex.re (Complex.csub (nth i fj (@zero (Complex.CArith FloatInst.SAF))) (nth i f0 (@zero (Complex.CArith FloatInst.SAF))))) d) (PrimFloat.mul (Complex.im (Complex.csub (nth i fj (@zero (Complex.CArith FloatInst.SAF))) (nth i f0 (@zero (Complex.CArith FloatInst.SAF))))) (@zero FloatInst.AF)))
+           / ComplexRound.FR (PrimFloat.add (PrimFloat.mul d d) (PrimFloat.mul (@zero FloatInst.AF) (@zero FloatInst.AF))))%R ->
+        ComplexRound.no_underflow
+          (ComplexRound.FR (PrimFloat.sub (PrimFloat.mul (Complex.im (Complex.csub (nth i fj (@zero (Complex.CArith FloatInst.SAF))) (nth i f0 (@zero (Complex.CArith FloatInst.SAF))))) d) (PrimFloat.mul (Complex.re (Complex.csub (nth i fj (@zero (Complex.CArith FloatInst.SAF))) (nth i f0 (@zero (Complex.CArith FloatInst.SAF))))) (@zero FloatInst.AF)))
+           / ComplexRound.FR (PrimFloat.add (PrimFloat.mul d d) (PrimFloat.mul (@zero FloatInst.AF) (@zero FloatInst.AF))))%R ->
+        (Rabs (ComplexRound.FR (Complex.re (nth i fj (@zero (Complex.CArith FloatInst.SAF)))) - Ar) <= ea)%R -> (Rabs (ComplexRound.FR (Complex.im (nth i fj (@zero (Complex.CArith FloatInst.SAF)))) - Ai) <= ea)%R ->
+        (Rabs (ComplexRound.FR (Complex.re (nth i f0 (@zero (Complex.CArith FloatInst.SAF)))) - Br) <= eb)%R -> (Rabs (ComplexRound.FR (Complex.im (nth i f0 (@zero (Complex.CArith FloatInst.SAF)))) - Bi) <= eb)%R ->
+        (Rabs (ComplexRound.FR (Complex.re q) - (Ar - Br) / ComplexRound.FR d) <=
+           (RoundModel.gam ComplexRound.u64 6 * Rabs (Ar - Br) + (1 + RoundModel.gam ComplexRound.u64 6) * (ea + eb)) / Rabs (ComplexRound.FR d))%R /\
+        (Rabs (ComplexRound.FR (Complex.im q) - (Ai - Bi) / ComplexRound.FR d) <=
+           (RoundModel.gam ComplexRound.u64 6 * Rabs (Ai - Bi) + (1 + RoundModel.gam ComplexRound.u64 6) * (ea + eb)) / Rabs (ComplexRound.FR d))%R.
+Proof. exact JacExactFloatRoundC.jacobian_entry_floor_C_float_lemma. Qed.
+Check jacobian_entry_floor_C_float : forall (F : list (Complex.cplx FloatInst.AF) -> res (list (Complex.cplx FloatInst.AF))) (x : list (Complex.cplx FloatInst.AF)) (d : PrimFloat.float) (J : matrix (NA (NCplx FloatInst.SAF))) (evs : list (list (Complex.cplx FloatInst.AF))),
+  jacobian (NCplx FloatInst.SAF) F x (emb (NCplx FloatInst.SAF) d) = Ok (J, evs) ->
+  exists f0, F x = Ok f0 /\ rows J = length f0 /\ cols J = length x /\
+  forall i j, (i < length f0)%nat -> (j < length x)%nat ->
+    exists fj q, F (JacExactGen.call_pt (NCplx FloatInst.SAF) x (emb (NCplx FloatInst.SAF) d) j) = Ok fj /\ mget J i j = Ok q /\
+      Complex.cdiv (Complex.csub (nth i fj (@zero (Complex.CArith FloatInst.SAF))) (nth i f0 (@zero (Complex.CArith FloatInst.SAF)))) (emb (NCplx FloatInst.SAF) d) = Ok q /\
+      forall (Ar Ai Br Bi ea eb : R),
+        ComplexRound.ffinite (Complex.re q) -> ComplexRound.ffinite (Complex.im q) -> ComplexRound.FR (PrimFloat.add (PrimFloat.mul d d) (PrimFloat.mul (@zero FloatInst.AF) (@zero FloatInst.AF))) <> 0%R ->
+        ComplexRound.no_underflow (ComplexRound.FR (Complex.re (Complex.csub (nth i fj (@zero (Complex.CArith FloatInst.SAF))) (nth i f0 (@zero (Complex.CArith FloatInst.SAF))))) * ComplexRound.FR d)%R ->
+        ComplexRound.no_underflow (ComplexRound.FR (Complex.im (Complex.csub (nth i fj (@zero (Complex.CArith FloatInst.SAF))) (nth i f0 (@zero (Complex.CArith FloatInst.SAF))))) * ComplexRound.FR d)%R ->
+        ComplexRound.no_underflow (ComplexRound.FR d * ComplexRound.FR d)%R ->
+        ComplexRound.no_underflow
+          (ComplexRound.FR (PrimFloat.add (PrimFloat.mul (Complex.re (Complex.csub (nth i fj (@zero (Complex.CArith FloatInst.SAF))) (nth i f0 (@zero (Complex.CArith FloatInst.SAF))))) d) (PrimFloat.mul (Complex.im (Complex.csub (nth i fj (@zero (Complex.CArith FloatInst.SAF))) (nth i f0 (@zero (Complex.CArith FloatInst.SAF))))) (@zero FloatInst.AF)))
+           / ComplexRound.FR (PrimFloat.add (PrimFloat.mul d d) (PrimFloat.mul (@zero FloatInst.AF) (@zero FloatInst.AF))))%R ->
+        ComplexRound.no_underflow
+          (ComplexRound.FR (PrimFloat.sub (PrimFloat.mul (Complex.im (Complex.csub (nth i fj (@zero (Complex.CArith FloatInst.SAF))) (nth i f0 (@zero (Complex.CArith FloatInst.SAF))))) d) (PrimFloat.mul (Complex.re (Complex.csub (nth i fj (@zero (Complex.CArith FloatInst.SAF))) (nth i f0 (@zero (Complex.CArith FloatInst.SAF))))) (@zero FloatInst.AF)))
+           / ComplexRound.FR (PrimFloat.add (PrimFloat.mul d d) (PrimFloat.mul (@zero FloatInst.AF) (@zero FloatInst.AF))))%R ->
+        (Rabs (ComplexRound.FR (Complex.re (nth i fj (@zero (Complex.CArith FloatInst.SAF)))) - Ar) <= ea)%R -> (Rabs (ComplexRound.FR (Complex.im (nth i fj (@zero (Complex.CArith FloatInst.SAF)))) - Ai) <= ea)%R ->
+        (Rabs (ComplexRound.FR (Complex.re (nth i f0 (@zero (Complex.CArith FloatInst.SAF)))) - Br) <= eb)%R -> (Rabs (ComplexRound.FR (Complex.im (nth i f0 (@zero (Complex.CArith FloatInst.SAF)))) - Bi) <= eb)%R ->
+        (Rabs (ComplexRound.FR (Complex.re q) - (Ar - Br) / ComplexRound.FR d) <=
+           (RoundModel.gam ComplexRound.u64 6 * Rabs (Ar - Br) + (1 + RoundModel.gam ComplexRound.u64 6) * (ea + eb)) / Rabs (ComplexRound.FR d))%R /\
+        (Rabs (ComplexRound.FR (Complex.im q) - (Ai - Bi) / ComplexRound.FR d) <=
+           (RoundModel.gam ComplexRound.u64 6 * Rabs (Ai - Bi) + (1 + RoundModel.gam ComplexRound.u64 6) * (ea + eb)) / Rabs (ComplexRound.FR d))%R.
+Print Assumptions jacobian_entry_floor_C_float.
+(* the identity on C^1 at 1 + i, delta = 0.1 (not dyadic): the entry is 1.0000000000000007 + 0 i *)
+Example jacobian_entry_floor_C_float_nonvacuous :
+  jacobian (NCplx FloatInst.SAF) (fun p => Ok p) JacExactFloatRoundC.excf_x (emb (NCplx FloatInst.SAF) JacExactFloatRound.exf_d) =
+    Ok (JacExactFloatRoundC.excf_J, [JacExactFloatRoundC.excf_x; [JacExactFloatRoundC.excf_a]]) /\
+  let z := Complex.csub JacExactFloatRoundC.excf_a (nth 0 JacExactFloatRoundC.excf_x (@zero (Complex.CArith FloatInst.SAF))) in
+  let den := PrimFloat.add (PrimFloat.mul JacExactFloatRound.exf_d JacExactFloatRound.exf_d)
+                           (PrimFloat.mul (@zero FloatInst.AF) (@zero FloatInst.AF)) in
+  ComplexRound.ffinite (Complex.re (nth 0 (buf JacExactFloatRoundC.excf_J) (@zero (Complex.CArith FloatInst.SAF)))) /\
+  ComplexRound.ffinite (Complex.im (nth 0 (buf JacExactFloatRoundC.excf_J) (@zero (Complex.CArith FloatInst.SAF)))) /\
+  ComplexRound.FR den <> 0%R /\
+  ComplexRound.no_underflow (ComplexRound.FR (Complex.re z) * ComplexRound.FR JacExactFloatRound.exf_d)%R /\
+  ComplexRound.no_underflow (ComplexRound.FR (Complex.im z) * ComplexRound.FR JacExactFloatRound.exf_d)%R /\
+  ComplexRound.no_underflow (ComplexRound.FR JacExactFloatRound.exf_d * ComplexRound.FR JacExactFloatRound.exf_d)%R /\
+  ComplexRound.no_underflow
+    (ComplexRound.FR (PrimFloat.add (PrimFloat.mul (Complex.re z) JacExactFloatRound.exf_d) (PrimFloat.mul (Complex.im z) (@zero FloatInst.AF)))
+     / ComplexRound.FR den)%R /\
+  ComplexRound.no_underflow
+    (ComplexRound.FR (PrimFloat.sub (PrimFloat.mul (Complex.im z) JacExactFloatRound.exf_d) (PrimFloat.mul (Complex.re z) (@zero FloatInst.AF)))
+     / ComplexRound.FR den)%R.
+Proof. split; [exact JacExactFloatRoundC.excf_run|exact JacExactFloatRoundC.excf_floor_conditions]. Qed.
